@@ -129,6 +129,24 @@ def _space(rng, n, kinds=('rn', 'rnw', 'discr')):
     return odl.uniform_discr(0, n * rng.choice([0.5, 2.0, 1.0]), n), 'uniform_discr'
 
 
+class _cguard(object):
+    """correspondence generators: an exception raised by the implementation on one case becomes one case that fails
+    (constructor CRaised of C12/Corr.v, check = false) with the exception in its description"""
+
+    def __init__(self, cs, family):
+        self.cs, self.family = cs, family
+
+    def __enter__(self):
+        return self
+
+    def __exit__(self, et, ev, tb):
+        if et is None or issubclass(et, (KeyboardInterrupt, SystemExit, GeneratorExit)):
+            return False
+        self.cs.add('CRaised', {'family': self.family, 'raised': '%s: %s' % (et.__name__, str(ev)[:200])},
+                    ('raised', self.family, et.__name__))
+        return True
+
+
 def _cb(tr):
     return lambda x: tr.append(_flat(x).tolist())
 
@@ -282,50 +300,51 @@ def _kz_cases(rng, tier, cs):
     import odl
     nper = 24 if tier == 'quick' else 100
     for _ in range(nper):
-        n = rng.randint(1, 4)
-        dom, dk = _space(rng, n, ('rn', 'rnw'))
-        nb = rng.randint(1, 4)
-        ops, rhs, blocks, descb = [], [], [], []
-        for _i in range(nb):
-            m = rng.randint(1, 3)
-            M = _imat(rng, m, n)
-            if rng.random() < 0.4:
-                M = M * rng.choice([8.0, 16.0, 0.25])      # blocks of very different norm => very different omega_i
-            ran = odl.rn(m) if dk == 'rn' else odl.rn(m, weighting=dom.weighting.const)
-            op = odl.MatrixOperator(M, dom, ran)
-            b = _ivec(rng, m)
-            om = float(2.0 ** np.round(np.log2(rng.choice(DY) / float(np.sum(M * M)))))
-            ops.append(op)
-            rhs.append(ran.element(b))
-            blocks.append((M, _matrix(op.adjoint), b, om))
-            descb.append({'M': M.tolist(), 'b': b, 'omega': om})
-        x0 = _ivec(rng, n, -3, 3)
-        niter = rng.choice([0, 1, 2, 3])
-        inner = rng.random() < 0.4
-        same_omega = rng.random() < 0.3
-        if same_omega:
-            blocks = [(M, Mt, b, blocks[0][3]) for (M, Mt, b, _o) in blocks]
-        tr = []
-        x = dom.element(x0)
-        # random=True: the permutations are drawn with np.random.permutation, once per outer iteration and
-        # nothing else in the loop consumes the global generator -> fix the seed, replay the draws for the model
-        randomised = rng.random() < 0.5
-        orders = 'None'
-        if randomised:
-            seed = rng.randrange(2 ** 31)
-            np.random.seed(seed)
-            drawn = [np.random.permutation(range(nb)).tolist() for _ in range(niter)]
-            orders = '(Some %s)' % C.lst([C.lst([C.nat(i) for i in o]) + '%nat' for o in drawn])
-            np.random.seed(seed)
-        odl.solvers.kaczmarz(ops, x, rhs, niter, omega=(blocks[0][3] if same_omega else [bl[3] for bl in blocks]),
-                             random=randomised, callback=_cb(tr), callback_loop='inner' if inner else 'outer')
-        bt = C.lst([_rec(kb_M=C.qss(M.tolist()), kb_Mt=C.qss(Mt.tolist()), kb_b=C.qs(b), kb_omega=C.q(om))
-                    for (M, Mt, b, om) in blocks])
-        term = 'CKz ' + _rec(kz_blocks=bt, kz_x0=C.qs(x0), kz_niter=C.nat(niter), kz_inner=C.b(inner),
-                             kz_orders=orders, kz_trace=C.qss(tr))
-        cs.add(term, {'solver': 'kaczmarz', 'space': dk, 'blocks': descb, 'x0': x0, 'niter': niter, 'inner': inner,
-                      'random': randomised, 'orders': orders},
-               ('kz', dk, str(descb), tuple(x0), niter, inner, orders) if _moved(x0, tr) else None)
+        with _cguard(cs, 'kz_cases'):
+            n = rng.randint(1, 4)
+            dom, dk = _space(rng, n, ('rn', 'rnw'))
+            nb = rng.randint(1, 4)
+            ops, rhs, blocks, descb = [], [], [], []
+            for _i in range(nb):
+                m = rng.randint(1, 3)
+                M = _imat(rng, m, n)
+                if rng.random() < 0.4:
+                    M = M * rng.choice([8.0, 16.0, 0.25])      # blocks of very different norm => very different omega_i
+                ran = odl.rn(m) if dk == 'rn' else odl.rn(m, weighting=dom.weighting.const)
+                op = odl.MatrixOperator(M, dom, ran)
+                b = _ivec(rng, m)
+                om = float(2.0 ** np.round(np.log2(rng.choice(DY) / float(np.sum(M * M)))))
+                ops.append(op)
+                rhs.append(ran.element(b))
+                blocks.append((M, _matrix(op.adjoint), b, om))
+                descb.append({'M': M.tolist(), 'b': b, 'omega': om})
+            x0 = _ivec(rng, n, -3, 3)
+            niter = rng.choice([0, 1, 2, 3])
+            inner = rng.random() < 0.4
+            same_omega = rng.random() < 0.3
+            if same_omega:
+                blocks = [(M, Mt, b, blocks[0][3]) for (M, Mt, b, _o) in blocks]
+            tr = []
+            x = dom.element(x0)
+            # random=True: the permutations are drawn with np.random.permutation, once per outer iteration and
+            # nothing else in the loop consumes the global generator -> fix the seed, replay the draws for the model
+            randomised = rng.random() < 0.5
+            orders = 'None'
+            if randomised:
+                seed = rng.randrange(2 ** 31)
+                np.random.seed(seed)
+                drawn = [np.random.permutation(range(nb)).tolist() for _ in range(niter)]
+                orders = '(Some %s)' % C.lst([C.lst([C.nat(i) for i in o]) + '%nat' for o in drawn])
+                np.random.seed(seed)
+            odl.solvers.kaczmarz(ops, x, rhs, niter, omega=(blocks[0][3] if same_omega else [bl[3] for bl in blocks]),
+                                 random=randomised, callback=_cb(tr), callback_loop='inner' if inner else 'outer')
+            bt = C.lst([_rec(kb_M=C.qss(M.tolist()), kb_Mt=C.qss(Mt.tolist()), kb_b=C.qs(b), kb_omega=C.q(om))
+                        for (M, Mt, b, om) in blocks])
+            term = 'CKz ' + _rec(kz_blocks=bt, kz_x0=C.qs(x0), kz_niter=C.nat(niter), kz_inner=C.b(inner),
+                                 kz_orders=orders, kz_trace=C.qss(tr))
+            cs.add(term, {'solver': 'kaczmarz', 'space': dk, 'blocks': descb, 'x0': x0, 'niter': niter, 'inner': inner,
+                          'random': randomised, 'orders': orders},
+                   ('kz', dk, str(descb), tuple(x0), niter, inner, orders) if _moved(x0, tr) else None)
 
 
 def _pm_cases(rng, tier, cs):
@@ -333,136 +352,139 @@ def _pm_cases(rng, tier, cs):
     from odl.operator.oputils import power_method_opnorm
     nper = 24 if tier == 'quick' else 100
     for _ in range(nper):
-        n = rng.randint(1, 4)
-        dom, dk = _space(rng, n)
-        selfadj = rng.random() < 0.4
-        if selfadj:
-            B = _imat(rng, n, n, -2, 2)
-            M = B + B.T
-            if rng.random() < 0.2:
-                M = np.zeros((n, n))
-                M[0, 0] = 1.0
-            op = odl.MatrixOperator(M, dom, dom)
-            # `op.adjoint is op` is what selects the branch: use a wrapper that says so
-            class SelfAdj(odl.Operator):
-                def __init__(self):
-                    super(SelfAdj, self).__init__(dom, dom, linear=True)
+        with _cguard(cs, 'pm_cases'):
+            n = rng.randint(1, 4)
+            dom, dk = _space(rng, n)
+            selfadj = rng.random() < 0.4
+            if selfadj:
+                B = _imat(rng, n, n, -2, 2)
+                M = B + B.T
+                if rng.random() < 0.2:
+                    M = np.zeros((n, n))
+                    M[0, 0] = 1.0
+                op = odl.MatrixOperator(M, dom, dom)
+                # `op.adjoint is op` is what selects the branch: use a wrapper that says so
+                class SelfAdj(odl.Operator):
+                    def __init__(self):
+                        super(SelfAdj, self).__init__(dom, dom, linear=True)
 
-                def _call(self, x, out):
-                    op(x, out=out)
+                    def _call(self, x, out):
+                        op(x, out=out)
 
-                @property
-                def adjoint(self):
-                    return self
-            use = SelfAdj()
-            Mt = M
-        else:
-            m = rng.randint(1, 4)
-            M = _imat(rng, m, n)
-            zero_reach = rng.random() < 0.2
-            if zero_reach:
-                M[:, 0] = 0.0
-            ran = (odl.rn(m) if dk == 'rn' else odl.rn(m, weighting=dom.weighting.const) if dk == 'rn-const-weight'
-                   else odl.uniform_discr(0, m * dom.cell_volume, m))
-            use = odl.MatrixOperator(M, dom, ran)
-            Mt = _matrix(use.adjoint)
-        x0 = _ivec(rng, n, -3, 3)
-        r = rng.random()
-        if r < 0.1:
-            x0 = [0.0] * n
-        elif r < 0.25 or (not selfadj and zero_reach):
-            x0 = [1.0] + [0.0] * (n - 1)
-        maxiter = rng.choice([1, 2, 3, 4, 6]) * (1 if selfadj else 2)
-        exact = rng.random() < 0.5
-        xs = []
-        raised, est = False, 0.0
-        try:
-            kw = dict(rtol=0.0, atol=0.0) if exact else {}
-            est = float(power_method_opnorm(use, xstart=dom.element(x0), maxiter=maxiter, callback=_cb(xs), **kw))
-        except ValueError:
-            raised = True
-        ncalls = maxiter if selfadj else maxiter // 2
-        iters = len(xs) + (0 if (len(xs) == ncalls and not raised) else 1)
-        if not any(x0):
-            iters = 0          # raises before the loop
-        term = 'CPm ' + _rec(pm_M=C.qss(M.tolist()), pm_Mt=C.qss(np.asarray(Mt).tolist()), pm_w=C.qs(_weights(dom)),
-                             pm_selfadj=C.b(selfadj), pm_x0=C.qs(x0), pm_iters=C.nat(iters), pm_raised=C.b(raised),
-                             pm_est=C.q(est), pm_xs=C.qss(xs))
-        cs.add(term, {'solver': 'power_method', 'space': dk, 'M': M.tolist(), 'x0': x0, 'maxiter': maxiter,
-                      'selfadj': selfadj, 'iters': iters, 'raised': raised},
-               ('pm', dk, str(M.tolist()), tuple(x0), maxiter, selfadj, exact))
+                    @property
+                    def adjoint(self):
+                        return self
+                use = SelfAdj()
+                Mt = M
+            else:
+                m = rng.randint(1, 4)
+                M = _imat(rng, m, n)
+                zero_reach = rng.random() < 0.2
+                if zero_reach:
+                    M[:, 0] = 0.0
+                ran = (odl.rn(m) if dk == 'rn' else odl.rn(m, weighting=dom.weighting.const) if dk == 'rn-const-weight'
+                       else odl.uniform_discr(0, m * dom.cell_volume, m))
+                use = odl.MatrixOperator(M, dom, ran)
+                Mt = _matrix(use.adjoint)
+            x0 = _ivec(rng, n, -3, 3)
+            r = rng.random()
+            if r < 0.1:
+                x0 = [0.0] * n
+            elif r < 0.25 or (not selfadj and zero_reach):
+                x0 = [1.0] + [0.0] * (n - 1)
+            maxiter = rng.choice([1, 2, 3, 4, 6]) * (1 if selfadj else 2)
+            exact = rng.random() < 0.5
+            xs = []
+            raised, est = False, 0.0
+            try:
+                kw = dict(rtol=0.0, atol=0.0) if exact else {}
+                est = float(power_method_opnorm(use, xstart=dom.element(x0), maxiter=maxiter, callback=_cb(xs), **kw))
+            except ValueError:
+                raised = True
+            ncalls = maxiter if selfadj else maxiter // 2
+            iters = len(xs) + (0 if (len(xs) == ncalls and not raised) else 1)
+            if not any(x0):
+                iters = 0          # raises before the loop
+            term = 'CPm ' + _rec(pm_M=C.qss(M.tolist()), pm_Mt=C.qss(np.asarray(Mt).tolist()), pm_w=C.qs(_weights(dom)),
+                                 pm_selfadj=C.b(selfadj), pm_x0=C.qs(x0), pm_iters=C.nat(iters), pm_raised=C.b(raised),
+                                 pm_est=C.q(est), pm_xs=C.qss(xs))
+            cs.add(term, {'solver': 'power_method', 'space': dk, 'M': M.tolist(), 'x0': x0, 'maxiter': maxiter,
+                          'selfadj': selfadj, 'iters': iters, 'raised': raised},
+                   ('pm', dk, str(M.tolist()), tuple(x0), maxiter, selfadj, exact))
 
 
 def _pdhg_cases(rng, tier, cs):
     import odl
     nper = 30 if tier == 'quick' else 120
     for _ in range(nper):
-        L, lk = _operator(rng, rng.randint(1, 4))
-        f, ft, fk = _fn(rng, L.domain, PRIMAL_KINDS)
-        g, gt, gk = _fn(rng, L.range, DUAL_KINDS)
-        n, m = _size(L.domain), _size(L.range)
-        M, Mt = _matrix(L), _matrix(L.adjoint)
-        tau, sigma = rng.choice(DY), rng.choice(DY)
-        theta = rng.choice([1.0, 1.0, 0.5, 0.0])
-        x0 = _ivec(rng, n, -3, 3)
-        niter = rng.choice([0, 1, 2, 3, 5])
-        given = rng.random() < 0.4
-        xr0 = _ivec(rng, n, -3, 3) if given else list(x0)
-        y0 = _ivec(rng, m, -2, 2) if given else [0.0] * m
-        x = _unflat(L.domain, x0)
-        xr = _unflat(L.domain, xr0)
-        y = _unflat(L.range, y0)
-        tr = []
-        obs = given or rng.random() < 0.5     # defaults (x_relax = x.copy(), y = 0) cannot be observed afterwards
-        kw = dict(x_relax=xr, y=y) if obs else {}
-        acc = 'None'
-        accd = None
-        if rng.random() < 0.3:
-            primal = rng.random() < 0.5
-            gamma = rng.choice([0.5, 1.0, 0.25])
-            kw['gamma_primal' if primal else 'gamma_dual'] = gamma
-            roots, t_, s_ = [], tau, sigma
-            for _k in range(niter):           # the same float operations as the loop body
-                r_ = float(np.sqrt(1 + 2 * gamma * (t_ if primal else s_)))
-                th_ = float(1 / r_)
-                roots.append(r_)
-                if primal:
-                    t_, s_ = t_ * th_, s_ / th_
-                else:
-                    t_, s_ = t_ / th_, s_ * th_
-            acc = '(Some (%s, %s, %s))' % (C.b(primal), C.q(gamma), C.qs(roots))
-            accd = {'primal': primal, 'gamma': gamma}
-        odl.solvers.pdhg(x, f, g, L, niter, tau=tau, sigma=sigma, theta=theta, callback=_cb(tr), **kw)
-        term = 'CPdhg ' + _rec(ph_acc=acc, ph_f=ft, ph_g=gt, ph_M=C.qss(M.tolist()), ph_Mt=C.qss(Mt.tolist()), ph_tau=C.q(tau),
-                               ph_sigma=C.q(sigma), ph_theta=C.q(theta), ph_x0=C.qs(x0), ph_xr0=C.qs(xr0),
-                               ph_y0=C.qs(y0), ph_niter=C.nat(niter), ph_trace=C.qss(tr), ph_obs=C.b(obs), ph_xr=C.qs(_flat(xr)),
-                               ph_y=C.qs(_flat(y)))
-        cs.add(term, {'solver': 'pdhg', 'op': lk, 'f': fk, 'g': gk, 'M': M.tolist(), 'tau': tau, 'sigma': sigma,
-                      'theta': theta, 'x0': x0, 'niter': niter, 'acceleration': accd},
-               ('pdhg', lk, ft, gt, str(M.tolist()), tau, sigma, theta, tuple(x0), niter, str(accd)) if _moved(x0, tr) else None)
+        with _cguard(cs, 'pdhg_cases'):
+            L, lk = _operator(rng, rng.randint(1, 4))
+            f, ft, fk = _fn(rng, L.domain, PRIMAL_KINDS)
+            g, gt, gk = _fn(rng, L.range, DUAL_KINDS)
+            n, m = _size(L.domain), _size(L.range)
+            M, Mt = _matrix(L), _matrix(L.adjoint)
+            tau, sigma = rng.choice(DY), rng.choice(DY)
+            theta = rng.choice([1.0, 1.0, 0.5, 0.0])
+            x0 = _ivec(rng, n, -3, 3)
+            niter = rng.choice([0, 1, 2, 3, 5])
+            given = rng.random() < 0.4
+            xr0 = _ivec(rng, n, -3, 3) if given else list(x0)
+            y0 = _ivec(rng, m, -2, 2) if given else [0.0] * m
+            x = _unflat(L.domain, x0)
+            xr = _unflat(L.domain, xr0)
+            y = _unflat(L.range, y0)
+            tr = []
+            obs = given or rng.random() < 0.5     # defaults (x_relax = x.copy(), y = 0) cannot be observed afterwards
+            kw = dict(x_relax=xr, y=y) if obs else {}
+            acc = 'None'
+            accd = None
+            if rng.random() < 0.3:
+                primal = rng.random() < 0.5
+                gamma = rng.choice([0.5, 1.0, 0.25])
+                kw['gamma_primal' if primal else 'gamma_dual'] = gamma
+                roots, t_, s_ = [], tau, sigma
+                for _k in range(niter):           # the same float operations as the loop body
+                    r_ = float(np.sqrt(1 + 2 * gamma * (t_ if primal else s_)))
+                    th_ = float(1 / r_)
+                    roots.append(r_)
+                    if primal:
+                        t_, s_ = t_ * th_, s_ / th_
+                    else:
+                        t_, s_ = t_ / th_, s_ * th_
+                acc = '(Some (%s, %s, %s))' % (C.b(primal), C.q(gamma), C.qs(roots))
+                accd = {'primal': primal, 'gamma': gamma}
+            odl.solvers.pdhg(x, f, g, L, niter, tau=tau, sigma=sigma, theta=theta, callback=_cb(tr), **kw)
+            term = 'CPdhg ' + _rec(ph_acc=acc, ph_f=ft, ph_g=gt, ph_M=C.qss(M.tolist()), ph_Mt=C.qss(Mt.tolist()), ph_tau=C.q(tau),
+                                   ph_sigma=C.q(sigma), ph_theta=C.q(theta), ph_x0=C.qs(x0), ph_xr0=C.qs(xr0),
+                                   ph_y0=C.qs(y0), ph_niter=C.nat(niter), ph_trace=C.qss(tr), ph_obs=C.b(obs), ph_xr=C.qs(_flat(xr)),
+                                   ph_y=C.qs(_flat(y)))
+            cs.add(term, {'solver': 'pdhg', 'op': lk, 'f': fk, 'g': gk, 'M': M.tolist(), 'tau': tau, 'sigma': sigma,
+                          'theta': theta, 'x0': x0, 'niter': niter, 'acceleration': accd},
+                   ('pdhg', lk, ft, gt, str(M.tolist()), tau, sigma, theta, tuple(x0), niter, str(accd)) if _moved(x0, tr) else None)
 
 
 def _admm_cases(rng, tier, cs):
     import odl
     nper = 24 if tier == 'quick' else 100
     for _ in range(nper):
-        L, lk = _operator(rng, rng.randint(1, 4))
-        f, ft, fk = _fn(rng, L.domain, PRIMAL_KINDS)
-        g, gt, gk = _fn(rng, L.range, PRIMAL_KINDS)
-        n, m = _size(L.domain), _size(L.range)
-        M, Mt = _matrix(L), _matrix(L.adjoint)
-        tau, sigma = rng.choice(DY), rng.choice(DY)
-        x0 = _ivec(rng, n, -3, 3)
-        niter = rng.choice([0, 1, 2, 3, 5])
-        x = _unflat(L.domain, x0)
-        tr = []
-        odl.solvers.admm_linearized(x, f, g, L, tau, sigma, niter, callback=_cb(tr))
-        term = 'CAdmm ' + _rec(am_f=ft, am_g=gt, am_M=C.qss(M.tolist()), am_Mt=C.qss(Mt.tolist()), am_tau=C.q(tau),
-                               am_sigma=C.q(sigma), am_x0=C.qs(x0), am_nW=C.nat(m), am_niter=C.nat(niter),
-                               am_trace=C.qss(tr))
-        cs.add(term, {'solver': 'admm_linearized', 'op': lk, 'f': fk, 'g': gk, 'M': M.tolist(), 'tau': tau,
-                      'sigma': sigma, 'x0': x0, 'niter': niter},
-               ('admm', lk, ft, gt, str(M.tolist()), tau, sigma, tuple(x0), niter) if _moved(x0, tr) else None)
+        with _cguard(cs, 'admm_cases'):
+            L, lk = _operator(rng, rng.randint(1, 4))
+            f, ft, fk = _fn(rng, L.domain, PRIMAL_KINDS)
+            g, gt, gk = _fn(rng, L.range, PRIMAL_KINDS)
+            n, m = _size(L.domain), _size(L.range)
+            M, Mt = _matrix(L), _matrix(L.adjoint)
+            tau, sigma = rng.choice(DY), rng.choice(DY)
+            x0 = _ivec(rng, n, -3, 3)
+            niter = rng.choice([0, 1, 2, 3, 5])
+            x = _unflat(L.domain, x0)
+            tr = []
+            odl.solvers.admm_linearized(x, f, g, L, tau, sigma, niter, callback=_cb(tr))
+            term = 'CAdmm ' + _rec(am_f=ft, am_g=gt, am_M=C.qss(M.tolist()), am_Mt=C.qss(Mt.tolist()), am_tau=C.q(tau),
+                                   am_sigma=C.q(sigma), am_x0=C.qs(x0), am_nW=C.nat(m), am_niter=C.nat(niter),
+                                   am_trace=C.qss(tr))
+            cs.add(term, {'solver': 'admm_linearized', 'op': lk, 'f': fk, 'g': gk, 'M': M.tolist(), 'tau': tau,
+                          'sigma': sigma, 'x0': x0, 'niter': niter},
+                   ('admm', lk, ft, gt, str(M.tolist()), tau, sigma, tuple(x0), niter) if _moved(x0, tr) else None)
 
 
 def _apg_roots(niter):
@@ -478,36 +500,37 @@ def _pg_cases(rng, tier, cs):
     import odl
     nper = 30 if tier == 'quick' else 120
     for _ in range(nper):
-        n = rng.randint(1, 4)
-        space, sk = _space(rng, n, ('rn', 'rn', 'discr'))
-        f, ft, fk = _fn(rng, space, PRIMAL_KINDS)
-        g, gterm, gd = _smooth(rng, space)
-        gamma = rng.choice([0.5, 0.25, 0.125, 0.0625])
-        x0 = _ivec(rng, n, -3, 3)
-        niter = rng.choice([0, 1, 2, 3, 5])
-        accel = rng.random() < 0.45
-        x = space.element(x0)
-        tr = []
-        if accel:
-            odl.solvers.accelerated_proximal_gradient(x, f, g, gamma, niter, callback=_cb(tr))
-            lams, roots = [], _apg_roots(niter)
-        else:
-            mode = rng.choice(['default', 'const', 'callable'])
-            seq = [rng.choice([1.0, 0.5, 1.5, 0.25]) for _ in range(niter)]
-            if mode == 'default':
-                seq = [1.0] * niter
-                odl.solvers.proximal_gradient(x, f, g, gamma, niter, callback=_cb(tr))
-            elif mode == 'const':
-                seq = [seq[0] if seq else 1.0] * niter
-                odl.solvers.proximal_gradient(x, f, g, gamma, niter, callback=_cb(tr), lam=(seq[0] if seq else 1.0))
+        with _cguard(cs, 'pg_cases'):
+            n = rng.randint(1, 4)
+            space, sk = _space(rng, n, ('rn', 'rn', 'discr'))
+            f, ft, fk = _fn(rng, space, PRIMAL_KINDS)
+            g, gterm, gd = _smooth(rng, space)
+            gamma = rng.choice([0.5, 0.25, 0.125, 0.0625])
+            x0 = _ivec(rng, n, -3, 3)
+            niter = rng.choice([0, 1, 2, 3, 5])
+            accel = rng.random() < 0.45
+            x = space.element(x0)
+            tr = []
+            if accel:
+                odl.solvers.accelerated_proximal_gradient(x, f, g, gamma, niter, callback=_cb(tr))
+                lams, roots = [], _apg_roots(niter)
             else:
-                odl.solvers.proximal_gradient(x, f, g, gamma, niter, callback=_cb(tr), lam=lambda k: seq[k])
-            lams, roots = seq, []
-        term = 'CPg ' + _rec(pg_f=ft, pg_g=gterm, pg_gamma=C.q(gamma), pg_lams=C.qs(lams), pg_x0=C.qs(x0),
-                             pg_accel=C.b(accel), pg_roots=C.qs(roots), pg_trace=C.qss(tr))
-        cs.add(term, {'solver': 'accelerated_proximal_gradient' if accel else 'proximal_gradient', 'space': sk,
-                      'f': fk, 'g': gd, 'gamma': gamma, 'lams': lams, 'x0': x0, 'niter': niter},
-               ('pg', accel, sk, ft, str(gd), gamma, tuple(lams), tuple(x0), niter) if _moved(x0, tr) else None)
+                mode = rng.choice(['default', 'const', 'callable'])
+                seq = [rng.choice([1.0, 0.5, 1.5, 0.25]) for _ in range(niter)]
+                if mode == 'default':
+                    seq = [1.0] * niter
+                    odl.solvers.proximal_gradient(x, f, g, gamma, niter, callback=_cb(tr))
+                elif mode == 'const':
+                    seq = [seq[0] if seq else 1.0] * niter
+                    odl.solvers.proximal_gradient(x, f, g, gamma, niter, callback=_cb(tr), lam=(seq[0] if seq else 1.0))
+                else:
+                    odl.solvers.proximal_gradient(x, f, g, gamma, niter, callback=_cb(tr), lam=lambda k: seq[k])
+                lams, roots = seq, []
+            term = 'CPg ' + _rec(pg_f=ft, pg_g=gterm, pg_gamma=C.q(gamma), pg_lams=C.qs(lams), pg_x0=C.qs(x0),
+                                 pg_accel=C.b(accel), pg_roots=C.qs(roots), pg_trace=C.qss(tr))
+            cs.add(term, {'solver': 'accelerated_proximal_gradient' if accel else 'proximal_gradient', 'space': sk,
+                          'f': fk, 'g': gd, 'gamma': gamma, 'lams': lams, 'x0': x0, 'niter': niter},
+                   ('pg', accel, sk, ft, str(gd), gamma, tuple(lams), tuple(x0), niter) if _moved(x0, tr) else None)
 
 
 def fb_alias_variant():
@@ -566,64 +589,66 @@ def _fb_cases(rng, tier, cs, alias):
     import odl
     nper = 24 if tier == 'quick' else 100
     for idx in range(nper):
-        n = rng.randint(1, 3)
-        space = odl.rn(n)
-        forced = idx < 2
-        f, ft, fk = _fn(rng, space, ['l1', 'tr-l2sq', 'l2sq'] if forced else PRIMAL_KINDS)
-        if rng.random() < 0.3:
-            h, hterm, hd = (odl.solvers.ZeroFunctional(space),
-                            _rec(sm_q=C.q(0), sm_M=C.qss(np.eye(n).tolist()), sm_Mt=C.qss(np.eye(n).tolist()),
-                                 sm_b=C.qs([0.0] * n)), 'zero')
-        else:
-            h, hterm, hd = _smooth(rng, space)
-        Ls, gs, ls, terms, desc = _blocks(rng, space, 0 if forced else rng.choice([0, 1, 1, 2]), ['l2sq', 'tr-l2sq'])
-        tau = rng.choice(DY)
-        x0 = [float(rng.randint(1, 3)) for _ in range(n)] if forced else _ivec(rng, n, -3, 3)
-        niter = rng.choice([2, 3]) if forced else rng.choice([0, 1, 2, 3, 5])
-        x = space.element(x0)
-        tr = []
-        kw = {'l': ls} if ls is not None else {}
-        odl.solvers.forward_backward_pd(x, f, gs, Ls, h, tau, [t[1] for t in terms], niter, callback=_cb(tr), **kw)
-        term = 'CFb ' + _rec(fb_f=ft, fb_h=hterm, fb_blocks=C.lst([t[0] for t in terms]), fb_tau=C.q(tau),
-                             fb_x0=C.qs(x0), fb_niter=C.nat(niter), fb_alias=C.b(bool(alias)), fb_trace=C.qss(tr))
-        cs.add(term, {'solver': 'forward_backward_pd', 'f': fk, 'h': hd, 'blocks': desc, 'tau': tau, 'x0': x0,
-                      'niter': niter, 'alias_variant': alias},
-               ('fb', ft, str(hd), str(desc), tau, tuple(x0), niter) if _moved(x0, tr) else None)
+        with _cguard(cs, 'fb_cases'):
+            n = rng.randint(1, 3)
+            space = odl.rn(n)
+            forced = idx < 2
+            f, ft, fk = _fn(rng, space, ['l1', 'tr-l2sq', 'l2sq'] if forced else PRIMAL_KINDS)
+            if rng.random() < 0.3:
+                h, hterm, hd = (odl.solvers.ZeroFunctional(space),
+                                _rec(sm_q=C.q(0), sm_M=C.qss(np.eye(n).tolist()), sm_Mt=C.qss(np.eye(n).tolist()),
+                                     sm_b=C.qs([0.0] * n)), 'zero')
+            else:
+                h, hterm, hd = _smooth(rng, space)
+            Ls, gs, ls, terms, desc = _blocks(rng, space, 0 if forced else rng.choice([0, 1, 1, 2]), ['l2sq', 'tr-l2sq'])
+            tau = rng.choice(DY)
+            x0 = [float(rng.randint(1, 3)) for _ in range(n)] if forced else _ivec(rng, n, -3, 3)
+            niter = rng.choice([2, 3]) if forced else rng.choice([0, 1, 2, 3, 5])
+            x = space.element(x0)
+            tr = []
+            kw = {'l': ls} if ls is not None else {}
+            odl.solvers.forward_backward_pd(x, f, gs, Ls, h, tau, [t[1] for t in terms], niter, callback=_cb(tr), **kw)
+            term = 'CFb ' + _rec(fb_f=ft, fb_h=hterm, fb_blocks=C.lst([t[0] for t in terms]), fb_tau=C.q(tau),
+                                 fb_x0=C.qs(x0), fb_niter=C.nat(niter), fb_alias=C.b(bool(alias)), fb_trace=C.qss(tr))
+            cs.add(term, {'solver': 'forward_backward_pd', 'f': fk, 'h': hd, 'blocks': desc, 'tau': tau, 'x0': x0,
+                          'niter': niter, 'alias_variant': alias},
+                   ('fb', ft, str(hd), str(desc), tau, tuple(x0), niter) if _moved(x0, tr) else None)
 
 
 def _dr_cases(rng, tier, cs):
     import odl
     nper = 24 if tier == 'quick' else 100
     for idx in range(nper):
-        n = rng.randint(1, 3)
-        space = odl.rn(n)
-        forced = idx < 3            # always a few runs of the `len(L) == 0` branches that can tell updates apart
-        f, ft, fk = _fn(rng, space, ['l1', 'tr-l2sq', 'l2sq'] if forced else PRIMAL_KINDS)
-        Ls, gs, ls, terms, desc = _blocks(rng, space, 0 if forced else rng.choice([0, 1, 1, 2, 3]), DUAL_KINDS)
-        tau = rng.choice(DY)
-        x0 = [float(rng.randint(1, 3)) for _ in range(n)] if forced else _ivec(rng, n, -3, 3)
-        niter = rng.choice([2, 3]) if forced else rng.choice([0, 1, 2, 3, 5])
-        mode = rng.choice(['default', 'const', 'callable'])
-        seq = [rng.choice([1.0, 0.5, 1.5]) for _ in range(niter)]
-        x = space.element(x0)
-        tr = []
-        kw = {}
-        if mode == 'default':
-            seq = [1.0] * niter
-        elif mode == 'const':
-            seq = [seq[0] if seq else 1.0] * niter
-            kw['lam'] = seq[0] if seq else 1.0
-        else:
-            kw['lam'] = lambda k: seq[k]
-        if ls is not None:
-            kw['l'] = ls
-        odl.solvers.douglas_rachford_pd(x, f, gs, Ls, niter, tau=tau, sigma=[t[1] for t in terms],
-                                        callback=_cb(tr), **kw)
-        term = 'CDr ' + _rec(dr_f=ft, dr_blocks=C.lst([t[0] for t in terms]), dr_tau=C.q(tau), dr_lams=C.qs(seq),
-                             dr_x0=C.qs(x0), dr_trace=C.qss(tr), dr_final=C.qs(_flat(x)))
-        cs.add(term, {'solver': 'douglas_rachford_pd', 'f': fk, 'blocks': desc, 'tau': tau, 'lams': seq, 'x0': x0,
-                      'niter': niter},
-               ('dr', ft, str(desc), tau, tuple(seq), tuple(x0), niter) if _moved(x0, tr) else None)
+        with _cguard(cs, 'dr_cases'):
+            n = rng.randint(1, 3)
+            space = odl.rn(n)
+            forced = idx < 3            # always a few runs of the `len(L) == 0` branches that can tell updates apart
+            f, ft, fk = _fn(rng, space, ['l1', 'tr-l2sq', 'l2sq'] if forced else PRIMAL_KINDS)
+            Ls, gs, ls, terms, desc = _blocks(rng, space, 0 if forced else rng.choice([0, 1, 1, 2, 3]), DUAL_KINDS)
+            tau = rng.choice(DY)
+            x0 = [float(rng.randint(1, 3)) for _ in range(n)] if forced else _ivec(rng, n, -3, 3)
+            niter = rng.choice([2, 3]) if forced else rng.choice([0, 1, 2, 3, 5])
+            mode = rng.choice(['default', 'const', 'callable'])
+            seq = [rng.choice([1.0, 0.5, 1.5]) for _ in range(niter)]
+            x = space.element(x0)
+            tr = []
+            kw = {}
+            if mode == 'default':
+                seq = [1.0] * niter
+            elif mode == 'const':
+                seq = [seq[0] if seq else 1.0] * niter
+                kw['lam'] = seq[0] if seq else 1.0
+            else:
+                kw['lam'] = lambda k: seq[k]
+            if ls is not None:
+                kw['l'] = ls
+            odl.solvers.douglas_rachford_pd(x, f, gs, Ls, niter, tau=tau, sigma=[t[1] for t in terms],
+                                            callback=_cb(tr), **kw)
+            term = 'CDr ' + _rec(dr_f=ft, dr_blocks=C.lst([t[0] for t in terms]), dr_tau=C.q(tau), dr_lams=C.qs(seq),
+                                 dr_x0=C.qs(x0), dr_trace=C.qss(tr), dr_final=C.qs(_flat(x)))
+            cs.add(term, {'solver': 'douglas_rachford_pd', 'f': fk, 'blocks': desc, 'tau': tau, 'lams': seq, 'x0': x0,
+                          'niter': niter},
+                   ('dr', ft, str(desc), tau, tuple(seq), tuple(x0), niter) if _moved(x0, tr) else None)
 
 
 def _objective(rng, n):
@@ -928,6 +953,29 @@ def _mono(vals, rel=1e-10):
     return all(b <= a + rel * (abs(a) + 1e-300) + 1e-13 for a, b in zip(vals, vals[1:]))
 
 
+class _guard(object):
+    """`with _guard(out, family):` -- an exception raised by the implementation (or by the oracle) inside the block
+    becomes ONE failing probe carrying the exception as observed value; the family and search() go on."""
+
+    def __init__(self, out, family, replay=None):
+        self.out, self.family, self.replay = out, family, replay
+
+    def __enter__(self):
+        return self
+
+    def __exit__(self, et, ev, tb):
+        if et is None or issubclass(et, (KeyboardInterrupt, SystemExit, GeneratorExit)):
+            return False
+        import traceback
+        where = traceback.extract_tb(tb)[-1]
+        self.out.append(C.Probe(False, 'raised-%s-%s' % (self.family, et.__name__),
+                                '%s: the implementation raised %s: %s (at %s:%d)'
+                                % (self.family, et.__name__, str(ev)[:160], where.filename.split('/')[-1], where.lineno),
+                                self.replay, {'observed': '%s: %s' % (et.__name__, ev),
+                                              'traceback': ''.join(traceback.format_tb(tb))[-1200:]}))
+        return True
+
+
 def _P(out, ok, key, what, replay=None, detail=None):
     out.append(C.Probe(bool(ok), key, what, replay, detail))
 
@@ -949,161 +997,162 @@ def _linear_probes(rng, tier, out):
     from odl.operator.oputils import power_method_opnorm
     N = 12 if tier == 'quick' else 60
     for _ in range(N):
-        n = rng.randint(1, 5)
-        wconst = rng.choice([None, None, 2.0, 0.25])
-        dom = odl.rn(n) if wconst is None else odl.rn(n, weighting=wconst)
-        dk = 'rn' if wconst is None else 'rn-weighted'
-        ill = rng.random() < 0.4
-        # --- conjugate gradient: energy error decreases each step, exact after n steps
-        Sm = _spd(rng, n, ill=ill)
-        op = odl.MatrixOperator(Sm, dom, dom)
-        b = _ivec(rng, n)
-        x0 = _ivec(rng, n, -3, 3)
-        xs = dom.element(np.linalg.solve(Sm, np.array(b)))
-        rhs = dom.element(b)
-        vals = []
-        cb = lambda z: vals.append(float((z - xs).inner(op(z - xs))))
-        x = dom.element(x0)
-        cb(x)
-        S.conjugate_gradient(op, x, rhs, n, callback=cb)
-        _P(out, _mono(vals, 1e-9), 'cg-energy-decrease-%s' % dk,
-           'conjugate_gradient: energy-norm error non-increasing (n=%d, %s)' % (n, 'ill' if ill else 'well'),
-           _replay_lin('cg', Sm, dk, wconst, b, x0, n), {'vals': vals})
-        e0 = max(vals[0], 1e-300)
-        cond = float(np.linalg.cond(Sm))
-        _P(out, vals[-1] <= 1e-9 * cond * cond * e0 + 1e-18 or len(vals) <= n,
-           'cg-exact-after-n-steps-%s' % dk,
-           'conjugate_gradient: exact (energy error at rounding level) after dimension-many steps',
-           _replay_lin('cg', Sm, dk, wconst, b, x0, n).replace(
-               "ok=all(b<=a*(1+1e-9)+1e-12 for a,b in zip(vals,vals[1:]))",
-               "ok=vals[-1] <= 1e-9*np.linalg.cond(M)**2*max(vals[0],1e-300)+1e-18"), {'vals': vals, 'cond': cond})
-        # --- CGN and Landweber: residual never increases
-        m = rng.randint(1, 5)
-        M = _imat(rng, m, n)
-        if ill and m >= 2 and n >= 2:
-            M[0, :] = M[0, :] * 32
-        ran = odl.rn(m) if wconst is None else odl.rn(m, weighting=wconst)
-        op = odl.MatrixOperator(M, dom, ran)
-        b = _ivec(rng, m)
-        rhs = ran.element(b)
-        for solver in ('cgn', 'landweber'):
+        with _guard(out, 'linear_probes'):
+            n = rng.randint(1, 5)
+            wconst = rng.choice([None, None, 2.0, 0.25])
+            dom = odl.rn(n) if wconst is None else odl.rn(n, weighting=wconst)
+            dk = 'rn' if wconst is None else 'rn-weighted'
+            ill = rng.random() < 0.4
+            # --- conjugate gradient: energy error decreases each step, exact after n steps
+            Sm = _spd(rng, n, ill=ill)
+            op = odl.MatrixOperator(Sm, dom, dom)
+            b = _ivec(rng, n)
+            x0 = _ivec(rng, n, -3, 3)
+            xs = dom.element(np.linalg.solve(Sm, np.array(b)))
+            rhs = dom.element(b)
             vals = []
-            cb = lambda z: vals.append(float((op(z) - rhs).norm()))
+            cb = lambda z: vals.append(float((z - xs).inner(op(z - xs))))
             x = dom.element(x0)
             cb(x)
-            niter = rng.choice([3, 8, 20])
-            if solver == 'cgn':
-                # budgets up to a little beyond the rank: the relative stopping test of d9e50f5 does not always
-                # end the loop before rounding noise is amplified (finding cgn-noise-floor-overflow, probed separately)
-                niter = rng.randint(1, min(m, n) + 1)
-                S.conjugate_gradient_normal(op, x, rhs, niter, callback=cb)
-                om = None
-            else:
-                om = rng.choice([2.0, 1.0, 0.5, 1.9999]) / _true_opnorm(op) ** 2
-                S.landweber(op, x, rhs, niter, omega=om, callback=cb)
-            _P(out, _mono(vals, 1e-9), '%s-residual-%s' % (solver, dk),
-               '%s: residual norm non-increasing (%dx%d, omega=%r)' % (solver, m, n, om),
-               _replay_lin(solver, M, dk, wconst, b, x0, niter, om), {'vals': vals})
-        # --- Landweber with the default relaxation 1/|A|_est^2 (power-method estimate, from below)
-        vals = []
-        x = dom.element(x0)
-        cb(x)
-        np.random.seed(rng.randrange(2 ** 31))
-        op2 = odl.MatrixOperator(M, dom, ran)           # fresh object: no cached norm
-        S.landweber(op2, x, rhs, 6, callback=cb)
-        _P(out, _mono(vals, 1e-9), 'landweber-default-omega-%s' % dk,
-           'landweber with omega=None (1/estimated norm^2): residual norm non-increasing', None,
-           {'M': M.tolist(), 'vals': vals})
-        # --- Kaczmarz on a consistent system: distance to the solution used to build it
-        xs = dom.element(_ivec(rng, n, -3, 3))
-        ops, rh, oms = [], [], []
-        for _i in range(rng.randint(1, 3)):
-            Mi = _imat(rng, rng.randint(1, 3), n)
-            rani = odl.rn(Mi.shape[0]) if wconst is None else odl.rn(Mi.shape[0], weighting=wconst)
-            oi = odl.MatrixOperator(Mi, dom, rani)
-            ops.append(oi)
-            rh.append(oi(xs))
-            oms.append(rng.choice([2.0, 1.0, 0.3]) / _true_opnorm(oi) ** 2)
-        vals = []
-        cb = lambda z: vals.append(float((z - xs).norm()))
-        x = dom.element(x0)
-        cb(x)
-        S.kaczmarz(ops, x, rh, rng.choice([2, 5]), omega=oms, callback=cb, callback_loop=rng.choice(['inner', 'outer']))
-        # random order, each block with its own omega_i = c_i/|A_i|^2 (true norms, blocks of very different size):
-        # the distance must not increase after ANY single block step
-        ops2, rh2, oms2, Ms2 = [], [], [], []
-        for _i in range(rng.randint(2, 4)):
-            Mi = _imat(rng, rng.randint(1, 3), n) * rng.choice([1.0, 16.0, 0.125, 64.0])
-            rani = odl.rn(Mi.shape[0]) if wconst is None else odl.rn(Mi.shape[0], weighting=wconst)
-            oi = odl.MatrixOperator(Mi, dom, rani)
-            ops2.append(oi)
-            rh2.append(oi(xs))
-            oms2.append(rng.choice([2.0, 1.0, 1.5]) / _true_opnorm(oi) ** 2)
-            Ms2.append(Mi.tolist())
-        seed = rng.randrange(2 ** 31)
-        vals2 = []
-        cb2 = lambda z: vals2.append(float((z - xs).norm()))
-        x = dom.element(x0)
-        cb2(x)
-        np.random.seed(seed)
-        S.kaczmarz(ops2, x, rh2, 4, omega=oms2, random=True, callback=cb2, callback_loop='inner')
-        rp2 = ("import odl, numpy as np\ndom=%s\nMs=%r; oms=%r\nxs=dom.element(%r); x=dom.element(%r)\n"
-               "ops=[odl.MatrixOperator(np.array(M),dom,%s) for M in Ms]\nrh=[o(xs) for o in ops]; vals=[]\n"
-               "cb=lambda z: vals.append(float((z-xs).norm()))\ncb(x)\nnp.random.seed(%d)\n"
-               "odl.solvers.kaczmarz(ops,x,rh,4,omega=oms,random=True,callback=cb,callback_loop='inner')\n"
-               "observed=vals\nok=all(b<=a*(1+1e-9)+1e-12 for a,b in zip(vals,vals[1:]))\n"
-               % ('odl.rn(%d)' % n if wconst is None else 'odl.rn(%d,weighting=%r)' % (n, wconst),
-                  Ms2, oms2, _flat(xs).tolist(), x0,
-                  'odl.rn(len(M))' if wconst is None else 'odl.rn(len(M),weighting=%r)' % wconst, seed))
-        _P(out, _mono(vals2, 1e-9), 'kaczmarz-random-order-distance-%s' % dk,
-           'kaczmarz(random=True, omega_i <= 2/|A_i|^2 per operator, blocks of very different norm): distance to a '
-           'solution non-increasing after every block step', rp2, {'vals': vals2[:12], 'omega': oms2})
-        rp = ("import odl, numpy as np\ndom=%s\nMs=%r; oms=%r\nxs=dom.element(%r); x=dom.element(%r)\n"
-              "ops=[odl.MatrixOperator(np.array(M),dom,%s) for M in Ms]\nrh=[o(xs) for o in ops]; vals=[]\n"
-              "cb=lambda z: vals.append(float((z-xs).norm()))\ncb(x)\nodl.solvers.kaczmarz(ops,x,rh,5,omega=oms,callback=cb,callback_loop='inner')\n"
-              "observed=vals\nok=all(b<=a*(1+1e-9)+1e-12 for a,b in zip(vals,vals[1:]))\n"
-              % ('odl.rn(%d)' % n if wconst is None else 'odl.rn(%d,weighting=%r)' % (n, wconst),
-                 [_matrix(o).tolist() for o in ops], oms, _flat(xs).tolist(), x0,
-                 'odl.rn(len(M))' if wconst is None else 'odl.rn(len(M),weighting=%r)' % wconst))
-        _P(out, _mono(vals, 1e-9), 'kaczmarz-distance-%s' % dk,
-           'kaczmarz: distance to a solution of a consistent system non-increasing', rp, {'vals': vals})
-        # --- power method never exceeds the true norm
-        L, lk = _probe_operator(rng, n, ('matrix', 'matrix-ill', 'gradient', 'pderiv', 'matrix-weighted'))
-        true = _true_opnorm(L)
-        np.random.seed(rng.randrange(2 ** 31))
-        xst = L.domain.element(_unflat(L.domain, [float(rng.randint(-3, 3)) or 1.0 for _ in range(_size(L.domain))]))
-        try:
-            est = float(power_method_opnorm(L, xstart=xst, maxiter=rng.choice([2, 4, 10, 100])))
-        except ValueError:          # start vector in the kernel: the code raises, nothing is returned
-            est = 0.0
-        _P(out, est <= true * (1 + 1e-9) + 1e-12, 'power-method-le-norm-normal-%s' % lk,
-           'power_method_opnorm(%s) = %r <= largest singular value %r' % (lk, est, true), None,
-           {'M': _matrix(L).tolist(), 'est': est, 'true': true})
-        Sy = _spd(rng, n) - float(rng.randint(0, 3)) * np.eye(n)
+            S.conjugate_gradient(op, x, rhs, n, callback=cb)
+            _P(out, _mono(vals, 1e-9), 'cg-energy-decrease-%s' % dk,
+               'conjugate_gradient: energy-norm error non-increasing (n=%d, %s)' % (n, 'ill' if ill else 'well'),
+               _replay_lin('cg', Sm, dk, wconst, b, x0, n), {'vals': vals})
+            e0 = max(vals[0], 1e-300)
+            cond = float(np.linalg.cond(Sm))
+            _P(out, vals[-1] <= 1e-9 * cond * cond * e0 + 1e-18 or len(vals) <= n,
+               'cg-exact-after-n-steps-%s' % dk,
+               'conjugate_gradient: exact (energy error at rounding level) after dimension-many steps',
+               _replay_lin('cg', Sm, dk, wconst, b, x0, n).replace(
+                   "ok=all(b<=a*(1+1e-9)+1e-12 for a,b in zip(vals,vals[1:]))",
+                   "ok=vals[-1] <= 1e-9*np.linalg.cond(M)**2*max(vals[0],1e-300)+1e-18"), {'vals': vals, 'cond': cond})
+            # --- CGN and Landweber: residual never increases
+            m = rng.randint(1, 5)
+            M = _imat(rng, m, n)
+            if ill and m >= 2 and n >= 2:
+                M[0, :] = M[0, :] * 32
+            ran = odl.rn(m) if wconst is None else odl.rn(m, weighting=wconst)
+            op = odl.MatrixOperator(M, dom, ran)
+            b = _ivec(rng, m)
+            rhs = ran.element(b)
+            for solver in ('cgn', 'landweber'):
+                vals = []
+                cb = lambda z: vals.append(float((op(z) - rhs).norm()))
+                x = dom.element(x0)
+                cb(x)
+                niter = rng.choice([3, 8, 20])
+                if solver == 'cgn':
+                    # budgets up to a little beyond the rank: the relative stopping test of d9e50f5 does not always
+                    # end the loop before rounding noise is amplified (finding cgn-noise-floor-overflow, probed separately)
+                    niter = rng.randint(1, min(m, n) + 1)
+                    S.conjugate_gradient_normal(op, x, rhs, niter, callback=cb)
+                    om = None
+                else:
+                    om = rng.choice([2.0, 1.0, 0.5, 1.9999]) / _true_opnorm(op) ** 2
+                    S.landweber(op, x, rhs, niter, omega=om, callback=cb)
+                _P(out, _mono(vals, 1e-9), '%s-residual-%s' % (solver, dk),
+                   '%s: residual norm non-increasing (%dx%d, omega=%r)' % (solver, m, n, om),
+                   _replay_lin(solver, M, dk, wconst, b, x0, niter, om), {'vals': vals})
+            # --- Landweber with the default relaxation 1/|A|_est^2 (power-method estimate, from below)
+            vals = []
+            x = dom.element(x0)
+            cb(x)
+            np.random.seed(rng.randrange(2 ** 31))
+            op2 = odl.MatrixOperator(M, dom, ran)           # fresh object: no cached norm
+            S.landweber(op2, x, rhs, 6, callback=cb)
+            _P(out, _mono(vals, 1e-9), 'landweber-default-omega-%s' % dk,
+               'landweber with omega=None (1/estimated norm^2): residual norm non-increasing', None,
+               {'M': M.tolist(), 'vals': vals})
+            # --- Kaczmarz on a consistent system: distance to the solution used to build it
+            xs = dom.element(_ivec(rng, n, -3, 3))
+            ops, rh, oms = [], [], []
+            for _i in range(rng.randint(1, 3)):
+                Mi = _imat(rng, rng.randint(1, 3), n)
+                rani = odl.rn(Mi.shape[0]) if wconst is None else odl.rn(Mi.shape[0], weighting=wconst)
+                oi = odl.MatrixOperator(Mi, dom, rani)
+                ops.append(oi)
+                rh.append(oi(xs))
+                oms.append(rng.choice([2.0, 1.0, 0.3]) / _true_opnorm(oi) ** 2)
+            vals = []
+            cb = lambda z: vals.append(float((z - xs).norm()))
+            x = dom.element(x0)
+            cb(x)
+            S.kaczmarz(ops, x, rh, rng.choice([2, 5]), omega=oms, callback=cb, callback_loop=rng.choice(['inner', 'outer']))
+            # random order, each block with its own omega_i = c_i/|A_i|^2 (true norms, blocks of very different size):
+            # the distance must not increase after ANY single block step
+            ops2, rh2, oms2, Ms2 = [], [], [], []
+            for _i in range(rng.randint(2, 4)):
+                Mi = _imat(rng, rng.randint(1, 3), n) * rng.choice([1.0, 16.0, 0.125, 64.0])
+                rani = odl.rn(Mi.shape[0]) if wconst is None else odl.rn(Mi.shape[0], weighting=wconst)
+                oi = odl.MatrixOperator(Mi, dom, rani)
+                ops2.append(oi)
+                rh2.append(oi(xs))
+                oms2.append(rng.choice([2.0, 1.0, 1.5]) / _true_opnorm(oi) ** 2)
+                Ms2.append(Mi.tolist())
+            seed = rng.randrange(2 ** 31)
+            vals2 = []
+            cb2 = lambda z: vals2.append(float((z - xs).norm()))
+            x = dom.element(x0)
+            cb2(x)
+            np.random.seed(seed)
+            S.kaczmarz(ops2, x, rh2, 4, omega=oms2, random=True, callback=cb2, callback_loop='inner')
+            rp2 = ("import odl, numpy as np\ndom=%s\nMs=%r; oms=%r\nxs=dom.element(%r); x=dom.element(%r)\n"
+                   "ops=[odl.MatrixOperator(np.array(M),dom,%s) for M in Ms]\nrh=[o(xs) for o in ops]; vals=[]\n"
+                   "cb=lambda z: vals.append(float((z-xs).norm()))\ncb(x)\nnp.random.seed(%d)\n"
+                   "odl.solvers.kaczmarz(ops,x,rh,4,omega=oms,random=True,callback=cb,callback_loop='inner')\n"
+                   "observed=vals\nok=all(b<=a*(1+1e-9)+1e-12 for a,b in zip(vals,vals[1:]))\n"
+                   % ('odl.rn(%d)' % n if wconst is None else 'odl.rn(%d,weighting=%r)' % (n, wconst),
+                      Ms2, oms2, _flat(xs).tolist(), x0,
+                      'odl.rn(len(M))' if wconst is None else 'odl.rn(len(M),weighting=%r)' % wconst, seed))
+            _P(out, _mono(vals2, 1e-9), 'kaczmarz-random-order-distance-%s' % dk,
+               'kaczmarz(random=True, omega_i <= 2/|A_i|^2 per operator, blocks of very different norm): distance to a '
+               'solution non-increasing after every block step', rp2, {'vals': vals2[:12], 'omega': oms2})
+            rp = ("import odl, numpy as np\ndom=%s\nMs=%r; oms=%r\nxs=dom.element(%r); x=dom.element(%r)\n"
+                  "ops=[odl.MatrixOperator(np.array(M),dom,%s) for M in Ms]\nrh=[o(xs) for o in ops]; vals=[]\n"
+                  "cb=lambda z: vals.append(float((z-xs).norm()))\ncb(x)\nodl.solvers.kaczmarz(ops,x,rh,5,omega=oms,callback=cb,callback_loop='inner')\n"
+                  "observed=vals\nok=all(b<=a*(1+1e-9)+1e-12 for a,b in zip(vals,vals[1:]))\n"
+                  % ('odl.rn(%d)' % n if wconst is None else 'odl.rn(%d,weighting=%r)' % (n, wconst),
+                     [_matrix(o).tolist() for o in ops], oms, _flat(xs).tolist(), x0,
+                     'odl.rn(len(M))' if wconst is None else 'odl.rn(len(M),weighting=%r)' % wconst))
+            _P(out, _mono(vals, 1e-9), 'kaczmarz-distance-%s' % dk,
+               'kaczmarz: distance to a solution of a consistent system non-increasing', rp, {'vals': vals})
+            # --- power method never exceeds the true norm
+            L, lk = _probe_operator(rng, n, ('matrix', 'matrix-ill', 'gradient', 'pderiv', 'matrix-weighted'))
+            true = _true_opnorm(L)
+            np.random.seed(rng.randrange(2 ** 31))
+            xst = L.domain.element(_unflat(L.domain, [float(rng.randint(-3, 3)) or 1.0 for _ in range(_size(L.domain))]))
+            try:
+                est = float(power_method_opnorm(L, xstart=xst, maxiter=rng.choice([2, 4, 10, 100])))
+            except ValueError:          # start vector in the kernel: the code raises, nothing is returned
+                est = 0.0
+            _P(out, est <= true * (1 + 1e-9) + 1e-12, 'power-method-le-norm-normal-%s' % lk,
+               'power_method_opnorm(%s) = %r <= largest singular value %r' % (lk, est, true), None,
+               {'M': _matrix(L).tolist(), 'est': est, 'true': true})
+            Sy = _spd(rng, n) - float(rng.randint(0, 3)) * np.eye(n)
 
-        class SelfAdj(odl.Operator):
-            def __init__(self, mo):
-                super(SelfAdj, self).__init__(mo.domain, mo.range, linear=True)
-                self.mo = mo
+            class SelfAdj(odl.Operator):
+                def __init__(self, mo):
+                    super(SelfAdj, self).__init__(mo.domain, mo.range, linear=True)
+                    self.mo = mo
 
-            def _call(self, x, out):
-                self.mo(x, out=out)
+                def _call(self, x, out):
+                    self.mo(x, out=out)
 
-            @property
-            def adjoint(self):
-                return self
-        so = SelfAdj(odl.MatrixOperator(Sy, dom, dom))
-        try:
-            est = float(power_method_opnorm(so, xstart=dom.element([1.0] * n), maxiter=rng.choice([1, 3, 10, 100])))
-        except ValueError:
-            est = 0.0
-        true = float(np.max(np.abs(np.linalg.eigvalsh(Sy))))
-        rp = ("import odl, numpy as np\nS=np.array(%r)\nclass SA(odl.Operator):\n def __init__(s,mo):\n  super(SA,s).__init__(mo.domain,mo.range,linear=True); s.mo=mo\n"
-              " def _call(s,x,out):\n  s.mo(x,out=out)\n adjoint=property(lambda s: s)\n"
-              "from odl.operator.oputils import power_method_opnorm\nobserved=float(power_method_opnorm(SA(odl.MatrixOperator(S)),xstart=[1.0]*len(S),maxiter=10))\n"
-              "expected=float(np.max(np.abs(np.linalg.eigvalsh(S))))\nok=observed<=expected*(1+1e-9)+1e-12\n" % (Sy.tolist(),))
-        _P(out, est <= true * (1 + 1e-9) + 1e-12, 'power-method-le-norm-selfadjoint-%s' % dk,
-           'power_method_opnorm (self-adjoint branch) = %r <= spectral radius %r' % (est, true), rp)
+                @property
+                def adjoint(self):
+                    return self
+            so = SelfAdj(odl.MatrixOperator(Sy, dom, dom))
+            try:
+                est = float(power_method_opnorm(so, xstart=dom.element([1.0] * n), maxiter=rng.choice([1, 3, 10, 100])))
+            except ValueError:
+                est = 0.0
+            true = float(np.max(np.abs(np.linalg.eigvalsh(Sy))))
+            rp = ("import odl, numpy as np\nS=np.array(%r)\nclass SA(odl.Operator):\n def __init__(s,mo):\n  super(SA,s).__init__(mo.domain,mo.range,linear=True); s.mo=mo\n"
+                  " def _call(s,x,out):\n  s.mo(x,out=out)\n adjoint=property(lambda s: s)\n"
+                  "from odl.operator.oputils import power_method_opnorm\nobserved=float(power_method_opnorm(SA(odl.MatrixOperator(S)),xstart=[1.0]*len(S),maxiter=10))\n"
+                  "expected=float(np.max(np.abs(np.linalg.eigvalsh(S))))\nok=observed<=expected*(1+1e-9)+1e-12\n" % (Sy.tolist(),))
+            _P(out, est <= true * (1 + 1e-9) + 1e-12, 'power-method-le-norm-selfadjoint-%s' % dk,
+               'power_method_opnorm (self-adjoint branch) = %r <= spectral radius %r' % (est, true), rp)
 
 
 def _cgn_blowup_probe(out):
@@ -1159,28 +1208,29 @@ def _descent_probes(rng, tier, out):
     from odl.solvers.util.steplen import BacktrackingLineSearch
     N = 12 if tier == 'quick' else 60
     for _ in range(N):
-        n = rng.randint(1, 4)
-        f, _ot, od = _objective(rng, max(n, 2) if rng.random() < 0.4 else n)
-        sp = f.domain
-        x0 = [float(rng.randint(-20, 20)) / 8 for _ in range(_size(sp))]
-        tau = rng.choice([0.5, 0.3, 0.8])
-        disc = rng.choice([0.01, 0.3, 0.0])
-        est = rng.random() < 0.5
-        vals = []
-        cb = lambda z: vals.append(float(f(z)))
-        x = sp.element(x0)
-        cb(x)
-        ls = BacktrackingLineSearch(f, tau=tau, discount=disc, estimate_step=est)
-        err = None
-        try:
-            odl.solvers.steepest_descent(f, x, line_search=ls, maxiter=rng.choice([5, 30]), callback=cb)
-        except (ValueError, AssertionError) as e:
-            err = type(e).__name__
-        kind = 'rosenbrock' if 'rosenbrock' in od else 'quadratic-' + od['quadratic']
-        ok = all(b <= a for a, b in zip(vals, vals[1:]))
-        _P(out, ok, 'steepest-descent-backtracking-%s' % kind,
-           'steepest_descent + BacktrackingLineSearch(tau=%r, discount=%r, estimate_step=%r): objective never increases (%s)'
-           % (tau, disc, est, err or 'no error'), None, {'objective': od, 'x0': x0, 'vals': vals[:8]})
+        with _guard(out, 'descent_probes'):
+            n = rng.randint(1, 4)
+            f, _ot, od = _objective(rng, max(n, 2) if rng.random() < 0.4 else n)
+            sp = f.domain
+            x0 = [float(rng.randint(-20, 20)) / 8 for _ in range(_size(sp))]
+            tau = rng.choice([0.5, 0.3, 0.8])
+            disc = rng.choice([0.01, 0.3, 0.0])
+            est = rng.random() < 0.5
+            vals = []
+            cb = lambda z: vals.append(float(f(z)))
+            x = sp.element(x0)
+            cb(x)
+            ls = BacktrackingLineSearch(f, tau=tau, discount=disc, estimate_step=est)
+            err = None
+            try:
+                odl.solvers.steepest_descent(f, x, line_search=ls, maxiter=rng.choice([5, 30]), callback=cb)
+            except (ValueError, AssertionError) as e:
+                err = type(e).__name__
+            kind = 'rosenbrock' if 'rosenbrock' in od else 'quadratic-' + od['quadratic']
+            ok = all(b <= a for a, b in zip(vals, vals[1:]))
+            _P(out, ok, 'steepest-descent-backtracking-%s' % kind,
+               'steepest_descent + BacktrackingLineSearch(tau=%r, discount=%r, estimate_step=%r): objective never increases (%s)'
+               % (tau, disc, est, err or 'no error'), None, {'objective': od, 'x0': x0, 'vals': vals[:8]})
 
 
 def _linesearch_reuse_probes(rng, tier, out):
@@ -1191,69 +1241,70 @@ def _linesearch_reuse_probes(rng, tier, out):
     from odl.solvers.util.steplen import BacktrackingLineSearch
     N = 10 if tier == 'quick' else 50
     for _ in range(N):
-        n = rng.randint(1, 3)
-        f, _ot, od = _objective(rng, max(n, 2) if rng.random() < 0.3 else n)
-        sp = f.domain
-        m = _size(sp)
-        kind = 'rosenbrock' if 'rosenbrock' in od else 'quadratic-' + od['quadratic']
-        ls = BacktrackingLineSearch(f, tau=rng.choice([0.5, 0.25]), discount=rng.choice([0.01, 0.3]), estimate_step=True)
-        starts = [[float(rng.randint(-24, 24)) / 8 for _ in range(m)] for _ in range(4)]
-        starts.sort(key=lambda c: -float(f(sp.element(c))))         # later runs start LOWER than the earlier ones
-        ok, detail = True, []
-        for x0 in starts[:3]:
-            prev = [float(f(sp.element(x0)))]
+        with _guard(out, 'linesearch_reuse_probes'):
+            n = rng.randint(1, 3)
+            f, _ot, od = _objective(rng, max(n, 2) if rng.random() < 0.3 else n)
+            sp = f.domain
+            m = _size(sp)
+            kind = 'rosenbrock' if 'rosenbrock' in od else 'quadratic-' + od['quadratic']
+            ls = BacktrackingLineSearch(f, tau=rng.choice([0.5, 0.25]), discount=rng.choice([0.01, 0.3]), estimate_step=True)
+            starts = [[float(rng.randint(-24, 24)) / 8 for _ in range(m)] for _ in range(4)]
+            starts.sort(key=lambda c: -float(f(sp.element(c))))         # later runs start LOWER than the earlier ones
+            ok, detail = True, []
+            for x0 in starts[:3]:
+                prev = [float(f(sp.element(x0)))]
 
-            def cb(z, prev=prev):
-                prev.append(float(f(z)))
-            x = sp.element(x0)
+                def cb(z, prev=prev):
+                    prev.append(float(f(z)))
+                x = sp.element(x0)
+                try:
+                    odl.solvers.steepest_descent(f, x, line_search=ls, maxiter=rng.choice([1, 2, 4]), callback=cb)
+                except (ValueError, AssertionError):
+                    pass
+                detail.append(prev[:5])
+                ok = ok and all(b <= a for a, b in zip(prev, prev[1:]))
+            _P(out, ok, 'linesearch-object-reused-across-runs-%s' % kind,
+               'one BacktrackingLineSearch(estimate_step=True) reused for three steepest_descent runs from different starts: '
+               'no accepted step increases the objective', None, {'objective': od, 'starts': starts[:3], 'values': detail})
+            # (b) projection moving x between the line-search calls, (c) direct calls at unrelated points
+            ls2 = BacktrackingLineSearch(f, tau=0.5, discount=0.01, estimate_step=True)
+            ok2 = True
+            for _k in range(4):
+                x = sp.element([float(rng.randint(-24, 24)) / 8 for _ in range(m)])
+                g = f.gradient(x)
+                dd = -float(g.inner(g))
+                if dd == 0:
+                    continue
+                try:
+                    a = ls2(x, -g, dd)
+                except (ValueError, AssertionError):
+                    continue
+                ok2 = ok2 and float(f(x - a * g)) <= float(f(x))
+            _P(out, ok2, 'linesearch-object-reused-at-unrelated-points-%s' % kind,
+               'BacktrackingLineSearch(estimate_step=True) called at unrelated points: f(x + alpha d) <= f(x) with f(x) '
+               'evaluated independently at the point of the call', None, {'objective': od})
+            lo = -1.0
+            vals = []
+            x = sp.element(starts[0])
+            ls3 = BacktrackingLineSearch(f, tau=0.5, discount=0.01, estimate_step=True)
+            state = {'before': None, 'ok': True}
+
+            def proj(z):
+                z[:] = np.maximum(np.asarray(z), lo)      # changes x AFTER the accepted step
+            # steepest_descent applies projection after the update: monitor the line-search call itself
+            real = ls3.__call__
+
+            def watched(xx, dirn, ddv):
+                a = real(xx, dirn, ddv)
+                state['ok'] = state['ok'] and float(f(xx + a * dirn)) <= float(f(xx))
+                return a
             try:
-                odl.solvers.steepest_descent(f, x, line_search=ls, maxiter=rng.choice([1, 2, 4]), callback=cb)
+                odl.solvers.steepest_descent(f, x, line_search=watched, maxiter=4, projection=proj)
             except (ValueError, AssertionError):
                 pass
-            detail.append(prev[:5])
-            ok = ok and all(b <= a for a, b in zip(prev, prev[1:]))
-        _P(out, ok, 'linesearch-object-reused-across-runs-%s' % kind,
-           'one BacktrackingLineSearch(estimate_step=True) reused for three steepest_descent runs from different starts: '
-           'no accepted step increases the objective', None, {'objective': od, 'starts': starts[:3], 'values': detail})
-        # (b) projection moving x between the line-search calls, (c) direct calls at unrelated points
-        ls2 = BacktrackingLineSearch(f, tau=0.5, discount=0.01, estimate_step=True)
-        ok2 = True
-        for _k in range(4):
-            x = sp.element([float(rng.randint(-24, 24)) / 8 for _ in range(m)])
-            g = f.gradient(x)
-            dd = -float(g.inner(g))
-            if dd == 0:
-                continue
-            try:
-                a = ls2(x, -g, dd)
-            except (ValueError, AssertionError):
-                continue
-            ok2 = ok2 and float(f(x - a * g)) <= float(f(x))
-        _P(out, ok2, 'linesearch-object-reused-at-unrelated-points-%s' % kind,
-           'BacktrackingLineSearch(estimate_step=True) called at unrelated points: f(x + alpha d) <= f(x) with f(x) '
-           'evaluated independently at the point of the call', None, {'objective': od})
-        lo = -1.0
-        vals = []
-        x = sp.element(starts[0])
-        ls3 = BacktrackingLineSearch(f, tau=0.5, discount=0.01, estimate_step=True)
-        state = {'before': None, 'ok': True}
-
-        def proj(z):
-            z[:] = np.maximum(np.asarray(z), lo)      # changes x AFTER the accepted step
-        # steepest_descent applies projection after the update: monitor the line-search call itself
-        real = ls3.__call__
-
-        def watched(xx, dirn, ddv):
-            a = real(xx, dirn, ddv)
-            state['ok'] = state['ok'] and float(f(xx + a * dirn)) <= float(f(xx))
-            return a
-        try:
-            odl.solvers.steepest_descent(f, x, line_search=watched, maxiter=4, projection=proj)
-        except (ValueError, AssertionError):
-            pass
-        _P(out, state['ok'], 'linesearch-with-projection-between-calls-%s' % kind,
-           'steepest_descent with a projection that moves x between line-search calls (estimate_step=True): every step '
-           'the search returns satisfies f(x + alpha d) <= f(x) at the projected point', None, {'objective': od})
+            _P(out, state['ok'], 'linesearch-with-projection-between-calls-%s' % kind,
+               'steepest_descent with a projection that moves x between line-search calls (estimate_step=True): every step '
+               'the search returns satisfies f(x + alpha d) <= f(x) at the projected point', None, {'objective': od})
 
 
 def _linesearch_stale_state_probes(rng, tier, out):
@@ -1266,24 +1317,26 @@ def _linesearch_stale_state_probes(rng, tier, out):
     cases = [(100.0, 0.75, [10.0, 0.0], [0.0, 0.2])]
     N = 6 if tier == 'quick' else 40
     for _ in range(N):
-        c = rng.choice([64.0, 100.0, 400.0, 25.0])
-        cases.append((c, rng.choice([0.75, 0.5, 0.8]), [float(rng.randint(4, 12)), 0.0],
-                      [0.0, float(rng.randint(1, 8)) / 32]))
+        with _guard(out, 'linesearch_stale_state_probes'):
+            c = rng.choice([64.0, 100.0, 400.0, 25.0])
+            cases.append((c, rng.choice([0.75, 0.5, 0.8]), [float(rng.randint(4, 12)), 0.0],
+                          [0.0, float(rng.randint(1, 8)) / 32]))
     for c, tau, s1, s2 in cases:
-        f = odl.solvers.QuadraticForm(odl.MatrixOperator(np.diag([1.0, c])))
-        ls = BacktrackingLineSearch(f, tau=tau, discount=0.01, estimate_step=True)
-        rp = ("import odl, numpy as np\nfrom odl.solvers.util.steplen import BacktrackingLineSearch\n"
-              "sp=odl.rn(2); f=odl.solvers.QuadraticForm(odl.MatrixOperator(np.diag([1.0,%r])))\n"
-              "ls=BacktrackingLineSearch(f,tau=%r,discount=0.01,estimate_step=True)\nvals=[]\n"
-              "for x0 in (%r,%r):\n    x=sp.element(x0); run=[float(f(x))]\n"
-              "    try:\n        odl.solvers.steepest_descent(f,x,line_search=ls,maxiter=1,callback=lambda z: run.append(float(f(z))))\n"
-              "    except (ValueError, AssertionError):\n        pass\n    vals.append(run)\n"
-              "observed=vals; ok=all(b<=a for run in vals for a,b in zip(run,run[1:]))\n" % (c, tau, s1, s2))
-        env = {}
-        exec(rp, env)
-        _P(out, env['ok'], 'linesearch-object-reused-from-lower-start',
-           'BacktrackingLineSearch(estimate_step=True) reused for a second steepest_descent run that starts lower on the '
-           'steep axis of x^T diag(1,%g) x: no accepted step increases f (values %r)' % (c, env['vals']), rp)
+        with _guard(out, 'linesearch_stale_state_probes'):
+            f = odl.solvers.QuadraticForm(odl.MatrixOperator(np.diag([1.0, c])))
+            ls = BacktrackingLineSearch(f, tau=tau, discount=0.01, estimate_step=True)
+            rp = ("import odl, numpy as np\nfrom odl.solvers.util.steplen import BacktrackingLineSearch\n"
+                  "sp=odl.rn(2); f=odl.solvers.QuadraticForm(odl.MatrixOperator(np.diag([1.0,%r])))\n"
+                  "ls=BacktrackingLineSearch(f,tau=%r,discount=0.01,estimate_step=True)\nvals=[]\n"
+                  "for x0 in (%r,%r):\n    x=sp.element(x0); run=[float(f(x))]\n"
+                  "    try:\n        odl.solvers.steepest_descent(f,x,line_search=ls,maxiter=1,callback=lambda z: run.append(float(f(z))))\n"
+                  "    except (ValueError, AssertionError):\n        pass\n    vals.append(run)\n"
+                  "observed=vals; ok=all(b<=a for run in vals for a,b in zip(run,run[1:]))\n" % (c, tau, s1, s2))
+            env = {}
+            exec(rp, env)
+            _P(out, env['ok'], 'linesearch-object-reused-from-lower-start',
+               'BacktrackingLineSearch(estimate_step=True) reused for a second steepest_descent run that starts lower on the '
+               'steep axis of x^T diag(1,%g) x: no accepted step increases f (values %r)' % (c, env['vals']), rp)
 
 
 def _kkt_pd(L, fT, gT, x, y):
@@ -1307,157 +1360,160 @@ def _nonsmooth_probes(rng, tier, out):
     NC = 4 if tier == 'quick' else 24          # long convergence runs (NIT iterations each)
     NIT = 2500
     for _ in range(NC + 2):
-        # ---------------- PDHG on f(x) + g(Lx), duals observable
-        n = rng.randint(1, 4)
-        L, lk = _probe_operator(rng, n, ('matrix', 'gradient', 'pderiv', 'broadcast', 'matrix-weighted'))
-        fT = _rand_term(rng, L.domain, ['l2sq', 'l2sq', 'l1', 'box'])
-        if fT.kind != 'l2sq' and rng.random() < 0.5:
-            fT = Term('l2sq', c=1.0, b=_ivec(rng, _size(L.domain), -3, 3))
-        gT = _g_for(rng, L)
-        if gT.kind == 'box' and fT.kind == 'box':
-            gT = Term('l1', c=1.0, b=_ivec(rng, _size(L.range), -2, 2))
-        f, g = fT.odl(L.domain), gT.odl(L.range)
-        nrm = _true_opnorm(L)
-        tau = rng.choice([1.0, 0.3, 3.0]) / nrm
-        sigma = 0.95 / (tau * nrm * nrm)
-        x = _unflat(L.domain, _ivec(rng, _size(L.domain), -3, 3))
-        y = L.range.zero()
-        xr = x.copy()
-        r0 = _kkt_pd(L, fT, gT, x, y)
-        S.pdhg(x, f, g, L, NIT, tau=tau, sigma=sigma, x_relax=xr, y=y)
-        r1 = _kkt_pd(L, fT, gT, x, y)
-        okc = r1 <= 1e-5 * (1 + r0) or not np.isfinite(r0)
-        _P(out, okc, 'pdhg-kkt-%s-f:%s-g:%s' % (lk, fT.kind, gT.kind),
-           'pdhg drives (x, y) to a KKT point: residual %.3g -> %.3g' % (r0, r1), None,
-           {'L': _matrix(L).tolist(), 'f': repr(fT), 'g': repr(gT), 'tau': tau, 'sigma': sigma})
-        # fixed point: restart from the reached pair, one more step must not move it (when converged)
-        if r1 <= 1e-9:
-            x2, y2, xr2 = x.copy(), y.copy(), x.copy()
-            S.pdhg(x2, f, g, L, 3, tau=tau, sigma=sigma, x_relax=xr2, y=y2)
-            _P(out, (x2 - x).norm() <= 1e-7 * (1 + x.norm()) and (y2 - y).norm() <= 1e-7 * (1 + y.norm()),
-               'pdhg-fixed-point-%s' % lk, 'pdhg leaves a KKT pair unchanged', None)
+        with _guard(out, 'nonsmooth_probes'):
+            # ---------------- PDHG on f(x) + g(Lx), duals observable
+            n = rng.randint(1, 4)
+            L, lk = _probe_operator(rng, n, ('matrix', 'gradient', 'pderiv', 'broadcast', 'matrix-weighted'))
+            fT = _rand_term(rng, L.domain, ['l2sq', 'l2sq', 'l1', 'box'])
+            if fT.kind != 'l2sq' and rng.random() < 0.5:
+                fT = Term('l2sq', c=1.0, b=_ivec(rng, _size(L.domain), -3, 3))
+            gT = _g_for(rng, L)
+            if gT.kind == 'box' and fT.kind == 'box':
+                gT = Term('l1', c=1.0, b=_ivec(rng, _size(L.range), -2, 2))
+            f, g = fT.odl(L.domain), gT.odl(L.range)
+            nrm = _true_opnorm(L)
+            tau = rng.choice([1.0, 0.3, 3.0]) / nrm
+            sigma = 0.95 / (tau * nrm * nrm)
+            x = _unflat(L.domain, _ivec(rng, _size(L.domain), -3, 3))
+            y = L.range.zero()
+            xr = x.copy()
+            r0 = _kkt_pd(L, fT, gT, x, y)
+            S.pdhg(x, f, g, L, NIT, tau=tau, sigma=sigma, x_relax=xr, y=y)
+            r1 = _kkt_pd(L, fT, gT, x, y)
+            okc = r1 <= 1e-5 * (1 + r0) or not np.isfinite(r0)
+            _P(out, okc, 'pdhg-kkt-%s-f:%s-g:%s' % (lk, fT.kind, gT.kind),
+               'pdhg drives (x, y) to a KKT point: residual %.3g -> %.3g' % (r0, r1), None,
+               {'L': _matrix(L).tolist(), 'f': repr(fT), 'g': repr(gT), 'tau': tau, 'sigma': sigma})
+            # fixed point: restart from the reached pair, one more step must not move it (when converged)
+            if r1 <= 1e-9:
+                x2, y2, xr2 = x.copy(), y.copy(), x.copy()
+                S.pdhg(x2, f, g, L, 3, tau=tau, sigma=sigma, x_relax=xr2, y=y2)
+                _P(out, (x2 - x).norm() <= 1e-7 * (1 + x.norm()) and (y2 - y).norm() <= 1e-7 * (1 + y.norm()),
+                   'pdhg-fixed-point-%s' % lk, 'pdhg leaves a KKT pair unchanged', None)
     for _ in range(N):
-        # ---------------- constructed solutions: (xs, ys) chosen first, functionals built around them
-        n = rng.randint(1, 4)
-        sp = odl.rn(n)
-        M = _imat(rng, rng.randint(1, 3), n, -2, 2)
-        L = odl.MatrixOperator(M)
-        xs = sp.element(_ivec(rng, n, -3, 3))
-        ys = L.range.element([float(rng.randint(-4, 4)) / 4 for _ in range(M.shape[0])])
-        cf = rng.choice([0.5, 1.0])
-        a = xs + L.adjoint(ys) / (2 * cf)                 # grad f(xs) = 2 cf (xs - a) = -L^* ys
-        fT = Term('l2sq', c=cf, b=_flat(a).tolist())
-        gT = Term('l1', c=1.0, b=_flat(L(xs)).tolist())    # ys in [-1,1]^m = d|.|_1 at the kink
-        assert _kkt_pd(L, fT, gT, xs, ys) < 1e-12
-        f, g = fT.odl(sp), gT.odl(L.range)
-        tau, sigma = rng.choice(DY), rng.choice(DY)
-        x, y, xr = xs.copy(), ys.copy(), xs.copy()
-        tr = []
-        S.pdhg(x, f, g, L, 4, tau=tau, sigma=sigma, x_relax=xr, y=y, theta=rng.choice([1.0, 0.5, 0.0]),
-               callback=lambda z: tr.append(float((z - xs).norm())))
-        rp = ("import odl, numpy as np\nsp=odl.rn(%d); L=odl.MatrixOperator(np.array(%r))\nxs=sp.element(%r); ys=L.range.element(%r)\n"
-              "f=(%r*odl.solvers.L2NormSquared(sp)).translated(%r); g=odl.solvers.L1Norm(L.range).translated(L(xs))\n"
-              "x,y,xr=xs.copy(),ys.copy(),xs.copy()\nodl.solvers.pdhg(x,f,g,L,4,tau=%r,sigma=%r,x_relax=xr,y=y)\n"
-              "observed=float((x-xs).norm()+(y-ys).norm()); ok=observed<=1e-9\n"
-              % (n, M.tolist(), _flat(xs).tolist(), _flat(ys).tolist(), cf, _flat(a).tolist(), tau, sigma))
-        _P(out, max(tr) <= 1e-9 and (y - ys).norm() <= 1e-9, 'pdhg-solution-fixed-point',
-           'pdhg started at a constructed KKT pair stays there (tau=%r, sigma=%r)' % (tau, sigma), rp)
-        # proximal gradient / accelerated: f = c|x - xs|_1 with c >= |grad g(xs)|_inf, g smooth
-        b = _ivec(rng, M.shape[0], -3, 3)
-        gsm = 0.5 * S.L2NormSquared(L.range).translated(b) * L
-        gr = _flat(gsm.gradient(xs))
-        c = float(np.max(np.abs(M.T.dot(M.dot(_flat(xs)) - np.array(b))))) + rng.choice([0.0, 0.5])
-        fT = Term('l1', c=max(c, 0.25), b=_flat(xs).tolist())
-        assert fT.sub_dist(sp, xs, sp.element(-(M.T.dot(M.dot(_flat(xs)) - np.array(b))))) < 1e-12
-        f = fT.odl(sp)
-        gamma = rng.choice(DY)
-        for nm, solver in (('proximal_gradient', S.proximal_gradient), ('accelerated_proximal_gradient', S.accelerated_proximal_gradient)):
-            x = xs.copy()
+        with _guard(out, 'nonsmooth_probes'):
+            # ---------------- constructed solutions: (xs, ys) chosen first, functionals built around them
+            n = rng.randint(1, 4)
+            sp = odl.rn(n)
+            M = _imat(rng, rng.randint(1, 3), n, -2, 2)
+            L = odl.MatrixOperator(M)
+            xs = sp.element(_ivec(rng, n, -3, 3))
+            ys = L.range.element([float(rng.randint(-4, 4)) / 4 for _ in range(M.shape[0])])
+            cf = rng.choice([0.5, 1.0])
+            a = xs + L.adjoint(ys) / (2 * cf)                 # grad f(xs) = 2 cf (xs - a) = -L^* ys
+            fT = Term('l2sq', c=cf, b=_flat(a).tolist())
+            gT = Term('l1', c=1.0, b=_flat(L(xs)).tolist())    # ys in [-1,1]^m = d|.|_1 at the kink
+            assert _kkt_pd(L, fT, gT, xs, ys) < 1e-12
+            f, g = fT.odl(sp), gT.odl(L.range)
+            tau, sigma = rng.choice(DY), rng.choice(DY)
+            x, y, xr = xs.copy(), ys.copy(), xs.copy()
             tr = []
-            solver(x, f, gsm, gamma, 4, callback=lambda z: tr.append(float((z - xs).norm())))
-            _P(out, max(tr) <= 1e-9, '%s-solution-fixed-point' % nm,
-               '%s started at a point with -grad g(x) in df(x) stays there (gamma=%r)' % (nm, gamma), None,
-               {'M': M.tolist(), 'b': b, 'xs': _flat(xs).tolist(), 'c': fT.c, 'moved': tr})
-        # solvers with internal, zero-initialised duals: solutions with zero dual and L xs = 0
-        f0 = Term('l1', c=1.0, b=None) if rng.random() < 0.5 else Term('l2sq', c=1.0, b=None)
-        g0 = Term(rng.choice(['l1', 'l2sq', 'l2']), c=1.0, b=None)
-        f, g = f0.odl(sp), g0.odl(L.range)
-        zero = sp.zero()
-        tr = []
-        x = zero.copy()
-        S.admm_linearized(x, f, g, L, rng.choice(DY), rng.choice(DY), 3, callback=lambda z: tr.append(float(z.norm())))
-        _P(out, max(tr) <= 1e-12, 'admm_linearized-solution-fixed-point', 'admm_linearized started at the common minimiser 0 stays there', None)
-        tr = []
-        x = zero.copy()
-        S.douglas_rachford_pd(x, f, [g], [L], 3, tau=rng.choice(DY), sigma=[rng.choice(DY)], callback=lambda z: tr.append(float(z.norm())))
-        _P(out, max(tr) <= 1e-12 and x.norm() <= 1e-12, 'douglas_rachford_pd-solution-fixed-point',
-           'douglas_rachford_pd started at the common minimiser 0 stays there', None)
-        tr = []
-        x = zero.copy()
-        S.forward_backward_pd(x, f, [g], [L], S.L2NormSquared(sp), rng.choice(DY), [rng.choice(DY)], 3,
-                              callback=lambda z: tr.append(float(z.norm())))
-        _P(out, max(tr) <= 1e-12, 'forward_backward_pd-solution-fixed-point',
-           'forward_backward_pd started at the common minimiser 0 stays there', None)
+            S.pdhg(x, f, g, L, 4, tau=tau, sigma=sigma, x_relax=xr, y=y, theta=rng.choice([1.0, 0.5, 0.0]),
+                   callback=lambda z: tr.append(float((z - xs).norm())))
+            rp = ("import odl, numpy as np\nsp=odl.rn(%d); L=odl.MatrixOperator(np.array(%r))\nxs=sp.element(%r); ys=L.range.element(%r)\n"
+                  "f=(%r*odl.solvers.L2NormSquared(sp)).translated(%r); g=odl.solvers.L1Norm(L.range).translated(L(xs))\n"
+                  "x,y,xr=xs.copy(),ys.copy(),xs.copy()\nodl.solvers.pdhg(x,f,g,L,4,tau=%r,sigma=%r,x_relax=xr,y=y)\n"
+                  "observed=float((x-xs).norm()+(y-ys).norm()); ok=observed<=1e-9\n"
+                  % (n, M.tolist(), _flat(xs).tolist(), _flat(ys).tolist(), cf, _flat(a).tolist(), tau, sigma))
+            _P(out, max(tr) <= 1e-9 and (y - ys).norm() <= 1e-9, 'pdhg-solution-fixed-point',
+               'pdhg started at a constructed KKT pair stays there (tau=%r, sigma=%r)' % (tau, sigma), rp)
+            # proximal gradient / accelerated: f = c|x - xs|_1 with c >= |grad g(xs)|_inf, g smooth
+            b = _ivec(rng, M.shape[0], -3, 3)
+            gsm = 0.5 * S.L2NormSquared(L.range).translated(b) * L
+            gr = _flat(gsm.gradient(xs))
+            c = float(np.max(np.abs(M.T.dot(M.dot(_flat(xs)) - np.array(b))))) + rng.choice([0.0, 0.5])
+            fT = Term('l1', c=max(c, 0.25), b=_flat(xs).tolist())
+            assert fT.sub_dist(sp, xs, sp.element(-(M.T.dot(M.dot(_flat(xs)) - np.array(b))))) < 1e-12
+            f = fT.odl(sp)
+            gamma = rng.choice(DY)
+            for nm, solver in (('proximal_gradient', S.proximal_gradient), ('accelerated_proximal_gradient', S.accelerated_proximal_gradient)):
+                x = xs.copy()
+                tr = []
+                solver(x, f, gsm, gamma, 4, callback=lambda z: tr.append(float((z - xs).norm())))
+                _P(out, max(tr) <= 1e-9, '%s-solution-fixed-point' % nm,
+                   '%s started at a point with -grad g(x) in df(x) stays there (gamma=%r)' % (nm, gamma), None,
+                   {'M': M.tolist(), 'b': b, 'xs': _flat(xs).tolist(), 'c': fT.c, 'moved': tr})
+            # solvers with internal, zero-initialised duals: solutions with zero dual and L xs = 0
+            f0 = Term('l1', c=1.0, b=None) if rng.random() < 0.5 else Term('l2sq', c=1.0, b=None)
+            g0 = Term(rng.choice(['l1', 'l2sq', 'l2']), c=1.0, b=None)
+            f, g = f0.odl(sp), g0.odl(L.range)
+            zero = sp.zero()
+            tr = []
+            x = zero.copy()
+            S.admm_linearized(x, f, g, L, rng.choice(DY), rng.choice(DY), 3, callback=lambda z: tr.append(float(z.norm())))
+            _P(out, max(tr) <= 1e-12, 'admm_linearized-solution-fixed-point', 'admm_linearized started at the common minimiser 0 stays there', None)
+            tr = []
+            x = zero.copy()
+            S.douglas_rachford_pd(x, f, [g], [L], 3, tau=rng.choice(DY), sigma=[rng.choice(DY)], callback=lambda z: tr.append(float(z.norm())))
+            _P(out, max(tr) <= 1e-12 and x.norm() <= 1e-12, 'douglas_rachford_pd-solution-fixed-point',
+               'douglas_rachford_pd started at the common minimiser 0 stays there', None)
+            tr = []
+            x = zero.copy()
+            S.forward_backward_pd(x, f, [g], [L], S.L2NormSquared(sp), rng.choice(DY), [rng.choice(DY)], 3,
+                                  callback=lambda z: tr.append(float(z.norm())))
+            _P(out, max(tr) <= 1e-12, 'forward_backward_pd-solution-fixed-point',
+               'forward_backward_pd started at the common minimiser 0 stays there', None)
     # ---------------- convergence through the primal inclusion (g differentiable => dual determined)
     for _ in range(NC):
-        n = rng.randint(1, 4)
-        sp = odl.rn(n)
-        M = _imat(rng, rng.randint(1, 3), n, -2, 2)
-        L = odl.MatrixOperator(M)
-        nrm = _true_opnorm(L)
-        fT = _rand_term(rng, sp, ['l1', 'box', 'l2sq', 'l2'])
-        cg = rng.choice([0.5, 1.0])
-        bg = _ivec(rng, M.shape[0], -3, 3)
-        gT = Term('l2sq', c=cg, b=bg)
-        f, g = fT.odl(sp), gT.odl(L.range)
+        with _guard(out, 'nonsmooth_probes'):
+            n = rng.randint(1, 4)
+            sp = odl.rn(n)
+            M = _imat(rng, rng.randint(1, 3), n, -2, 2)
+            L = odl.MatrixOperator(M)
+            nrm = _true_opnorm(L)
+            fT = _rand_term(rng, sp, ['l1', 'box', 'l2sq', 'l2'])
+            cg = rng.choice([0.5, 1.0])
+            bg = _ivec(rng, M.shape[0], -3, 3)
+            gT = Term('l2sq', c=cg, b=bg)
+            f, g = fT.odl(sp), gT.odl(L.range)
 
-        def resid(z):
-            yy = 2 * cg * (L(z) - L.range.element(bg))          # the only element of dg(Lz)
-            return fT.sub_dist(sp, z, -L.adjoint(yy))
-        x0 = _ivec(rng, n, -3, 3)
-        r0 = resid(sp.element(x0))
-        det = {'M': M.tolist(), 'f': repr(fT), 'g': repr(gT), 'x0': x0}
-        # admm_linearized: needs tau |L|^2 <= sigma
-        sigma = rng.choice([1.0, 0.5, 2.0])
-        tau = 0.95 * sigma / nrm ** 2
-        x = sp.element(x0)
-        S.admm_linearized(x, f, g, L, tau, sigma, NIT)
-        r1 = resid(x)
-        _P(out, r1 <= 1e-5 * (1 + r0), 'admm_linearized-kkt-f:%s' % fT.kind,
-           'admm_linearized: optimality residual %.3g -> %.3g' % (r0, r1), None, det)
-        # douglas_rachford_pd: tau * sigma * |L|^2 < 4
-        tau = rng.choice([1.0, 0.3]) / nrm
-        sigma = 3.5 / (tau * nrm ** 2)
-        x = sp.element(x0)
-        S.douglas_rachford_pd(x, f, [g], [L], NIT, tau=tau, sigma=[sigma])
-        r1 = resid(x)
-        _P(out, r1 <= 1e-5 * (1 + r0), 'douglas_rachford_pd-kkt-f:%s' % fT.kind,
-           'douglas_rachford_pd: optimality residual %.3g -> %.3g' % (r0, r1), None, det)
-        # proximal gradient on f + (g o L): gamma < 2 / (2 cg |L|^2)
-        gs = g * L
-        gamma = rng.choice([0.9, 0.5]) / (2 * cg * nrm ** 2)
-        for nm, solver, gam in (('proximal_gradient', S.proximal_gradient, 1.9 * gamma / 0.9 if rng.random() < 0.3 else gamma),
-                                ('accelerated_proximal_gradient', S.accelerated_proximal_gradient, gamma)):
+            def resid(z):
+                yy = 2 * cg * (L(z) - L.range.element(bg))          # the only element of dg(Lz)
+                return fT.sub_dist(sp, z, -L.adjoint(yy))
+            x0 = _ivec(rng, n, -3, 3)
+            r0 = resid(sp.element(x0))
+            det = {'M': M.tolist(), 'f': repr(fT), 'g': repr(gT), 'x0': x0}
+            # admm_linearized: needs tau |L|^2 <= sigma
+            sigma = rng.choice([1.0, 0.5, 2.0])
+            tau = 0.95 * sigma / nrm ** 2
             x = sp.element(x0)
-            obj = []
-            solver(x, f, gs, gam, NIT, callback=(lambda z: obj.append(float(f(z) + gs(z)))) if nm == 'proximal_gradient' else None)
+            S.admm_linearized(x, f, g, L, tau, sigma, NIT)
             r1 = resid(x)
-            _P(out, r1 <= 1e-5 * (1 + r0), '%s-kkt-f:%s' % (nm, fT.kind),
-               '%s: optimality residual %.3g -> %.3g' % (nm, r0, r1), None, det)
-            if obj:
-                _P(out, _mono([float(f(sp.element(x0)) + gs(sp.element(x0)))] + obj, 1e-9) or not np.isfinite(obj[0]),
-                   'proximal_gradient-objective-decrease-f:%s' % fT.kind,
-                   'proximal_gradient with gamma <= 2/L never increases f + g', None, det)
-        # forward_backward_pd with h strongly convex part: min f + h + g(Lx), h = |x - c|^2 / 2
-        hb = _ivec(rng, n, -2, 2)
-        h = 0.5 * S.L2NormSquared(sp).translated(hb)
-        g2T = _rand_term(rng, L.range, ['l1', 'l2'])
-        g2 = g2T.odl(L.range)
-        sig = rng.choice([1.0, 0.5])
-        tau = 0.9 / (0.5 + sig * nrm ** 2)                   # 1/tau - sigma |L|^2 >= beta/2, beta = 1
-        x = sp.element(x0)
-        ytr = []
-        _fb_probe(out, rng, sp, L, fT, f, h, hb, g2T, g2, tau, sig, x0, NIT)
+            _P(out, r1 <= 1e-5 * (1 + r0), 'admm_linearized-kkt-f:%s' % fT.kind,
+               'admm_linearized: optimality residual %.3g -> %.3g' % (r0, r1), None, det)
+            # douglas_rachford_pd: tau * sigma * |L|^2 < 4
+            tau = rng.choice([1.0, 0.3]) / nrm
+            sigma = 3.5 / (tau * nrm ** 2)
+            x = sp.element(x0)
+            S.douglas_rachford_pd(x, f, [g], [L], NIT, tau=tau, sigma=[sigma])
+            r1 = resid(x)
+            _P(out, r1 <= 1e-5 * (1 + r0), 'douglas_rachford_pd-kkt-f:%s' % fT.kind,
+               'douglas_rachford_pd: optimality residual %.3g -> %.3g' % (r0, r1), None, det)
+            # proximal gradient on f + (g o L): gamma < 2 / (2 cg |L|^2)
+            gs = g * L
+            gamma = rng.choice([0.9, 0.5]) / (2 * cg * nrm ** 2)
+            for nm, solver, gam in (('proximal_gradient', S.proximal_gradient, 1.9 * gamma / 0.9 if rng.random() < 0.3 else gamma),
+                                    ('accelerated_proximal_gradient', S.accelerated_proximal_gradient, gamma)):
+                x = sp.element(x0)
+                obj = []
+                solver(x, f, gs, gam, NIT, callback=(lambda z: obj.append(float(f(z) + gs(z)))) if nm == 'proximal_gradient' else None)
+                r1 = resid(x)
+                _P(out, r1 <= 1e-5 * (1 + r0), '%s-kkt-f:%s' % (nm, fT.kind),
+                   '%s: optimality residual %.3g -> %.3g' % (nm, r0, r1), None, det)
+                if obj:
+                    _P(out, _mono([float(f(sp.element(x0)) + gs(sp.element(x0)))] + obj, 1e-9) or not np.isfinite(obj[0]),
+                       'proximal_gradient-objective-decrease-f:%s' % fT.kind,
+                       'proximal_gradient with gamma <= 2/L never increases f + g', None, det)
+            # forward_backward_pd with h strongly convex part: min f + h + g(Lx), h = |x - c|^2 / 2
+            hb = _ivec(rng, n, -2, 2)
+            h = 0.5 * S.L2NormSquared(sp).translated(hb)
+            g2T = _rand_term(rng, L.range, ['l1', 'l2'])
+            g2 = g2T.odl(L.range)
+            sig = rng.choice([1.0, 0.5])
+            tau = 0.9 / (0.5 + sig * nrm ** 2)                   # 1/tau - sigma |L|^2 >= beta/2, beta = 1
+            x = sp.element(x0)
+            ytr = []
+            _fb_probe(out, rng, sp, L, fT, f, h, hb, g2T, g2, tau, sig, x0, NIT)
     # the deterministic witness of finding forward_backward_pd-x_old-alias
     rp = ("import odl\nsp=odl.rn(1); x=sp.element([1.0]); tr=[]\n"
           "odl.solvers.forward_backward_pd(x, odl.solvers.ZeroFunctional(sp), [odl.solvers.IndicatorZero(sp)], [odl.IdentityOperator(sp)],\n"
@@ -1470,18 +1526,19 @@ def _nonsmooth_probes(rng, tier, out):
        '(max |x| over the last 20 of 200 iterations: %r)' % env['observed'], rp)
     # default step-size rules (exact operator norms given as numbers)
     for _ in range(N):
-        Ln = rng.choice([0.5, 1.0, 3.0, 7.0])
-        t, s_ = S.pdhg_stepsize(Ln)
-        t2, s2 = S.pdhg_stepsize(Ln, tau=0.25)
-        t3, s3 = S.pdhg_stepsize(Ln, sigma=0.5)
-        ok = all(abs(a * b_ * Ln ** 2 - 0.9) < 1e-12 for a, b_ in ((t, s_), (t2, s2), (t3, s3))) and t2 == 0.25 and s3 == 0.5
-        _P(out, ok, 'pdhg_stepsize-rule', 'pdhg_stepsize: tau*sigma*|L|^2 = 0.9 < 1 in all three branches', None)
-        Ls = [rng.choice([0.5, 1.0, 3.0]) for _ in range(rng.randint(1, 3))]
-        ok = True
-        for kw in ({}, {'tau': 0.3}, {'sigma': [0.7] * len(Ls)}):
-            t, sg = S.douglas_rachford_pd_stepsize(Ls, **kw)
-            ok = ok and abs(t * sum(si * li ** 2 for si, li in zip(sg, Ls)) - 2.0) < 1e-12
-        _P(out, ok, 'douglas_rachford_pd_stepsize-rule', 'douglas_rachford_pd_stepsize: tau * sum sigma_i |L_i|^2 = 2 < 4', None)
+        with _guard(out, 'nonsmooth_probes'):
+            Ln = rng.choice([0.5, 1.0, 3.0, 7.0])
+            t, s_ = S.pdhg_stepsize(Ln)
+            t2, s2 = S.pdhg_stepsize(Ln, tau=0.25)
+            t3, s3 = S.pdhg_stepsize(Ln, sigma=0.5)
+            ok = all(abs(a * b_ * Ln ** 2 - 0.9) < 1e-12 for a, b_ in ((t, s_), (t2, s2), (t3, s3))) and t2 == 0.25 and s3 == 0.5
+            _P(out, ok, 'pdhg_stepsize-rule', 'pdhg_stepsize: tau*sigma*|L|^2 = 0.9 < 1 in all three branches', None)
+            Ls = [rng.choice([0.5, 1.0, 3.0]) for _ in range(rng.randint(1, 3))]
+            ok = True
+            for kw in ({}, {'tau': 0.3}, {'sigma': [0.7] * len(Ls)}):
+                t, sg = S.douglas_rachford_pd_stepsize(Ls, **kw)
+                ok = ok and abs(t * sum(si * li ** 2 for si, li in zip(sg, Ls)) - 2.0) < 1e-12
+            _P(out, ok, 'douglas_rachford_pd_stepsize-rule', 'douglas_rachford_pd_stepsize: tau * sum sigma_i |L_i|^2 = 2 < 4', None)
 
 
 class _SpyConj(object):
@@ -1757,22 +1814,24 @@ def _limit_option_probes(out, tier):
     def resid(z):
         return fT.sub_dist(sp, z, -Qop.adjoint(Qop(z) - b))
     for lam in (1.0, 0.5, 1.5, 'call:0.5,1.5'):
-        for gamma in (0.5, 1.0):
-            x = sp.element([3.0, 3.0])
-            S.proximal_gradient(x, f, g, gamma, nit, lam=_fp_call_spec(lam))
-            r = resid(x)
-            _P(out, r <= 1e-8, 'limit-proximal_gradient-lam', 'proximal_gradient(lam=%r, gamma=%r): limit satisfies '
-               '-grad g(x) in d|x|_1 (residual %.3g)' % (lam, gamma, r),
-               "import odl, numpy as np\nS=odl.solvers; sp=odl.rn(2); Qop=odl.MatrixOperator(np.array([[0.,1.],[-1.,0.]])); b=sp.element([.5,3.])\n"
-               "x=sp.element([3.,3.]); lam=%r\nif isinstance(lam,str): seq=[float(t) for t in lam[5:].split(',')]; lam=lambda k: seq[k %% len(seq)]\n"
-               "S.proximal_gradient(x,S.L1Norm(sp),0.5*S.L2NormSquared(sp).translated(b)*Qop,%r,%d,lam=lam)\n"
-               "observed=x.asarray().tolist(); expected=[-2.0,0.0]; ok=float((x-sp.element(expected)).norm())<=1e-7\n" % (lam, gamma, nit))
+        with _guard(out, 'limit_option_probes'):
+            for gamma in (0.5, 1.0):
+                x = sp.element([3.0, 3.0])
+                S.proximal_gradient(x, f, g, gamma, nit, lam=_fp_call_spec(lam))
+                r = resid(x)
+                _P(out, r <= 1e-8, 'limit-proximal_gradient-lam', 'proximal_gradient(lam=%r, gamma=%r): limit satisfies '
+                   '-grad g(x) in d|x|_1 (residual %.3g)' % (lam, gamma, r),
+                   "import odl, numpy as np\nS=odl.solvers; sp=odl.rn(2); Qop=odl.MatrixOperator(np.array([[0.,1.],[-1.,0.]])); b=sp.element([.5,3.])\n"
+                   "x=sp.element([3.,3.]); lam=%r\nif isinstance(lam,str): seq=[float(t) for t in lam[5:].split(',')]; lam=lambda k: seq[k %% len(seq)]\n"
+                   "S.proximal_gradient(x,S.L1Norm(sp),0.5*S.L2NormSquared(sp).translated(b)*Qop,%r,%d,lam=lam)\n"
+                   "observed=x.asarray().tolist(); expected=[-2.0,0.0]; ok=float((x-sp.element(expected)).norm())<=1e-7\n" % (lam, gamma, nit))
     for gamma in (0.5, 0.25):
-        x = sp.element([3.0, 3.0])
-        S.accelerated_proximal_gradient(x, f, g, gamma, nit)
-        r = resid(x)
-        _P(out, r <= 1e-6, 'limit-accelerated_proximal_gradient-gamma', 'accelerated_proximal_gradient(gamma=%r): '
-           'residual of the inclusion %.3g' % (gamma, r), None)
+        with _guard(out, 'limit_option_probes'):
+            x = sp.element([3.0, 3.0])
+            S.accelerated_proximal_gradient(x, f, g, gamma, nit)
+            r = resid(x)
+            _P(out, r <= 1e-6, 'limit-accelerated_proximal_gradient-gamma', 'accelerated_proximal_gradient(gamma=%r): '
+               'residual of the inclusion %.3g' % (gamma, r), None)
     g2 = 0.5 * S.L2NormSquared(sp).translated(b)
     # gamma_dual needs g^* strongly convex (g = 1/2|.-b|^2: yes); gamma_primal needs f strongly convex: use the
     # mirrored problem  min 1/2 |x - a|^2 + |Q x|_1  there.  Accelerated variants converge like 1/N^2: looser bound.
@@ -1796,13 +1855,14 @@ def _limit_option_probes(out, tier):
     f3 = 0.5 * S.L2NormSquared(sp).translated(a)
     gT = Term('l1', c=1.0)
     for lam in (1.0, 0.5, 1.5, 'call:0.5,1.5'):
-        x = sp.element([3.0, -3.0])
-        spy = _SpyConj(S.L1Norm(L.range))
-        S.douglas_rachford_pd(x, f3, [spy], [L], nit, tau=0.5, sigma=[1.0], lam=_fp_call_spec(lam))
-        yv = spy.last_out
-        r = float((x - a + L.adjoint(yv)).norm()) + gT.sub_dist(L.range, L(x), yv)
-        _P(out, r <= 1e-6, 'limit-douglas_rachford_pd-lam', 'douglas_rachford_pd(lam=%r): KKT residual of the limit %.3g'
-           % (lam, r), None)
+        with _guard(out, 'limit_option_probes'):
+            x = sp.element([3.0, -3.0])
+            spy = _SpyConj(S.L1Norm(L.range))
+            S.douglas_rachford_pd(x, f3, [spy], [L], nit, tau=0.5, sigma=[1.0], lam=_fp_call_spec(lam))
+            yv = spy.last_out
+            r = float((x - a + L.adjoint(yv)).norm()) + gT.sub_dist(L.range, L(x), yv)
+            _P(out, r <= 1e-6, 'limit-douglas_rachford_pd-lam', 'douglas_rachford_pd(lam=%r): KKT residual of the limit %.3g'
+               % (lam, r), None)
 
 
 # ================================================= scales, warm starts, alias-unsafe operators
@@ -1905,6 +1965,196 @@ def _scale_probes(out):
                    % (solver, int(np.log2(s)), label, why), _fp_replay(solver, o).replace('<= %g' % FP_TOL, '<= %g' % (FP_TOL * s)))
 
 
+def _tr_replay(name):
+    return ("import sys\nsys.path.insert(0, %r)\nfrom harness import c12\nout=[]\nc12._transcription_probes(out)\n"
+            "bad=[(p.key, p.detail) for p in out if not p.ok and p.key.startswith(%r)]\nobserved=bad[:2]; ok=not bad\n"
+            % (C.VERIF, name))
+
+
+def _transcription_probes(out):
+    """NumPy transcriptions of the documented iterations on fixed small problems, compared iterate by iterate, plus the
+    limit against the closed-form minimiser: accelerated pdhg (primal and dual rule), douglas_rachford_pd with several
+    operators SHARING a range space, forward_backward_pd with infimal-convolution terms `l` and sigma_i != 1."""
+    import odl
+    S = odl.solvers
+    sp = odl.rn(2)
+    close = lambda tr, ref: len(tr) == len(ref) and all(np.allclose(t, r, rtol=1e-9, atol=1e-12) for t, r in zip(tr, ref))
+    soft = lambda z, t: np.sign(z) * np.maximum(np.abs(z) - t, 0.0)
+    # ---------------- accelerated pdhg
+    Q = np.array([[0.0, 1.0], [-1.0, 0.0]])
+    Qop = odl.MatrixOperator(Q)
+    b = np.array([0.5, 3.0])
+    a = np.array([3.0, -0.5])
+    for mode, gamma in (('gamma_dual', 0.5), ('gamma_dual', 1.0), ('gamma_primal', 0.5), ('gamma_primal', 1.0)):
+        with _guard(out, 'transcription-pdhg-' + mode, _tr_replay('transcription-pdhg')):
+            if mode == 'gamma_dual':      # min |x|_1 + 1/2 |Q x - b|^2 : g^* is 1-strongly convex; x* = soft(Q^T b, 1) = (-2, 0)
+                f, g = S.L1Norm(sp), 0.5 * S.L2NormSquared(sp).translated(b)
+                proxf = lambda z, t: soft(z, t)
+                proxgc = lambda y, sg: (y - sg * b) / (1 + sg)
+                xstar = np.array([-2.0, 0.0])
+            else:                         # min 1/2 |x - a|^2 + |Q x|_1 : f is 1-strongly convex; x* = soft(a, 1) = (2, 0)
+                f, g = 0.5 * S.L2NormSquared(sp).translated(a), S.L1Norm(sp)
+                proxf = lambda z, t: (z + t * a) / (1 + t)
+                proxgc = lambda y, sg: np.clip(y, -1.0, 1.0)
+                xstar = np.array([2.0, 0.0])
+            tau, sigma = 0.5, 0.5
+            tr = []
+            x = sp.element([3.0, 3.0])
+            S.pdhg(x, f, g, Qop, 6, tau=tau, sigma=sigma, callback=lambda z: tr.append(np.asarray(z).copy()), **{mode: gamma})
+            ref, xx, xr, yy, t_, s_ = [], np.array([3.0, 3.0]), np.array([3.0, 3.0]), np.zeros(2), tau, sigma
+            for _ in range(6):
+                yy = proxgc(yy + s_ * Q.dot(xr), s_)
+                xn = proxf(xx - t_ * Q.T.dot(yy), t_)
+                if mode == 'gamma_primal':
+                    th = 1 / np.sqrt(1 + 2 * gamma * t_)
+                    t_, s_ = t_ * th, s_ / th
+                else:
+                    th = 1 / np.sqrt(1 + 2 * gamma * s_)
+                    t_, s_ = t_ / th, s_ * th
+                xr = xn + th * (xn - xx)
+                xx = xn
+                ref.append(xx.copy())
+            _P(out, close(tr, ref), 'transcription-pdhg-%s' % mode,
+               'pdhg(%s=%r): the first 6 iterates equal the NumPy transcription (tau*theta / sigma/theta for the primal, '
+               'tau/theta / sigma*theta for the dual rule)' % (mode, gamma), _tr_replay('transcription-pdhg'),
+               {'got': [t.tolist() for t in tr[:3]], 'want': [t.tolist() for t in ref[:3]]})
+            x = sp.element([3.0, 3.0])
+            S.pdhg(x, f, g, Qop, 1500, tau=tau, sigma=sigma, **{mode: gamma})
+            d = float(np.linalg.norm(np.asarray(x) - xstar))
+            # accelerated pdhg: |x_N - x*| = O(1/N); a frozen or diverging iterate is off by O(1)
+            _P(out, d <= 1e-2, 'limit-pdhg-%s-known-minimiser' % mode,
+               'pdhg(%s=%r, admissible: the strongly convex side has modulus 1) converges to the closed-form minimiser %r '
+               '(distance %.3g after 1500 iterations)' % (mode, gamma, xstar.tolist(), d), _tr_replay('limit-pdhg'),
+               {'x': np.asarray(x).tolist()})
+    # ---------------- douglas_rachford_pd, operators sharing a range space
+    Ls = [np.array([[1.0, -1.0]]), np.array([[2.0, 1.0]]), np.array([[0.0, 3.0]])]      # all map into rn(1)
+    cs = [1.0, 0.5, 2.0]
+    sig = [0.5, 1.0, 0.25]
+    a3 = np.array([1.5, -1.0])
+    for m in (2, 3):
+        for lam in (1.0, 0.5):
+            with _guard(out, 'transcription-douglas_rachford_pd', _tr_replay('transcription-douglas')):
+                ops = [odl.MatrixOperator(L) for L in Ls[:m]]
+                f = 0.5 * S.L2NormSquared(sp).translated(a3)
+                gs = [c * S.L1Norm(o.range) for c, o in zip(cs, ops)]
+                tau = 0.25
+                tr = []
+                x = sp.element([2.0, 3.0])
+                S.douglas_rachford_pd(x, f, gs, ops, 5, tau=tau, sigma=sig[:m], lam=lam,
+                                      callback=lambda z: tr.append(np.asarray(z).copy()))
+                xx, vs, ref = np.array([2.0, 3.0]), [np.zeros(1) for _ in range(m)], []
+                for k in range(5):
+                    z1 = xx - tau / 2 * sum(L.T.dot(v) for L, v in zip(Ls, vs))
+                    p1 = (z1 + tau * a3) / (1 + tau)
+                    ref.append(p1.copy())
+                    if k == 4:
+                        xx = p1
+                        break
+                    w1 = 2 * p1 - xx
+                    p2 = [np.clip(v + s_ / 2 * L.dot(w1), -c, c) for L, v, s_, c in zip(Ls, vs, sig, cs)]
+                    w2 = [2 * p - v for p, v in zip(p2, vs)]
+                    z1 = w1 - tau / 2 * sum(L.T.dot(w) for L, w in zip(Ls, w2))
+                    xx = xx - lam * p1 + lam * z1
+                    q1 = 2 * z1 - w1
+                    vs = [v + lam * (w + s_ / 2 * L.dot(q1)) - lam * p for L, v, w, p, s_ in zip(Ls, vs, w2, p2, sig)]
+                ok = close(tr, ref) and np.allclose(np.asarray(x), xx, rtol=1e-9, atol=1e-12)
+                _P(out, ok, 'transcription-douglas_rachford_pd-shared-range',
+                   'douglas_rachford_pd with %d operators into the SAME range space rn(1), lam=%r: callbacks and final x equal '
+                   'the NumPy transcription' % (m, lam), _tr_replay('transcription-douglas'),
+                   {'got': [t.tolist() for t in tr], 'want': [t.tolist() for t in ref]})
+                # limit: KKT through the duals observed by spies
+                x = sp.element([2.0, 3.0])
+                spies = [_SpyConj(gi) for gi in gs]
+                S.douglas_rachford_pd(x, f, spies, ops, 3000, tau=tau, sigma=sig[:m], lam=lam)
+                ys = [sp_.last_out for sp_ in spies]
+                r = float(np.linalg.norm(np.asarray(x) - a3 + sum(L.T.dot(np.asarray(y)) for L, y in zip(Ls, ys))))
+                r += sum(Term('l1', c=c).sub_dist(o.range, o(x), y) for c, o, y in zip(cs, ops, ys))
+                _P(out, r <= 1e-6, 'limit-douglas_rachford_pd-shared-range',
+                   'douglas_rachford_pd with %d operators sharing a range, lam=%r: KKT residual of the limit %.3g' % (m, lam, r),
+                   _tr_replay('limit-douglas'))
+    # ---------------- forward_backward_pd with l and sigma != 1
+    alias = fb_alias_variant()
+    for sig2, cl in (([0.5], 1.0), ([2.0], 0.5), ([0.25, 2.0], 1.0)):
+        with _guard(out, 'transcription-forward_backward_pd', _tr_replay('transcription-forward')):
+            m = len(sig2)
+            ops = [odl.MatrixOperator(L) for L in Ls[:m]]
+            f = S.L1Norm(sp)
+            h = 0.5 * S.L2NormSquared(sp).translated(a3)
+            gs = [c * S.L1Norm(o.range) for c, o in zip(cs, ops)]
+            ls = [cl * S.L2NormSquared(o.range) for o in ops]                 # grad l^*(v) = v / (2 cl)
+            tau = 0.125
+            tr = []
+            x = sp.element([2.0, 3.0])
+            S.forward_backward_pd(x, f, gs, ops, h, tau, sig2, 5, l=ls, callback=lambda z: tr.append(np.asarray(z).copy()))
+            xx, vs, ref = np.array([2.0, 3.0]), [np.zeros(1) for _ in range(m)], []
+            for _ in range(5):
+                t1 = (xx - a3) + sum(L.T.dot(v) for L, v in zip(Ls, vs))
+                xn = soft(xx - tau * t1, tau)
+                y = xn if alias else 2 * xn - xx
+                vs = [np.clip(v + s_ * (L.dot(y) - v / (2 * cl)), -c, c) for L, v, s_, c in zip(Ls, vs, sig2, cs)]
+                xx = xn
+                ref.append(xx.copy())
+            _P(out, close(tr, ref), 'transcription-forward_backward_pd-l-sigma',
+               'forward_backward_pd with l_i = %r |.|^2 and sigma = %r: iterates equal the NumPy transcription '
+               '(dual step v + sigma_i (L_i y - grad l_i^*(v)))' % (cl, sig2), _tr_replay('transcription-forward'),
+               {'got': [t.tolist() for t in tr], 'want': [t.tolist() for t in ref], 'alias_variant': alias})
+
+
+def _norm_estimate_probes(rng, out):
+    """power_method_opnorm and the default step sizes derived from it, at magnitudes 2**-30 .. 2**20 of the operator:
+    the estimate must be within 1e-3 of the true norm (never above) for operators with a clear spectral gap, and
+    landweber(omega=None), pdhg_stepsize(L) must stay admissible.  Magnitudes <= 2**-17 (norm below ~2e-5) are finding
+    power-method-atol-small-norm (absolute tolerance 1e-8 in the stopping test)."""
+    import odl
+    from odl.operator.oputils import power_method_opnorm
+    R1 = np.array([[0.6, -0.8, 0.0], [0.8, 0.6, 0.0], [0.0, 0.0, 1.0]])
+    R2 = np.array([[1.0, 0.0, 0.0], [0.0, 0.6, 0.8], [0.0, -0.8, 0.6]])
+    base = [R1.dot(np.diag([4.0, 1.0, 0.5])).dot(R2), np.diag([3.0, 1.0, 0.25]), R2.dot(np.diag([2.0, 0.5, 0.5])).dot(R1),
+            R1.dot(np.diag([1.0, 0.8, 0.5])).dot(R2), R2.dot(np.diag([2.0, 1.7, 0.3])).dot(R1)]     # the last two: small gap
+    for k in (-30, -20, -17, -13, -10, 0, 10, 20):
+        for j, B in enumerate(base):
+            with _guard(out, 'norm-estimates'):
+                A = B * 2.0 ** k
+                true = float(np.linalg.norm(A, 2))
+                rp = ("import odl, numpy as np\nfrom odl.operator.oputils import power_method_opnorm\nA=np.array(%r)*2.0**%d\n"
+                      "observed=float(power_method_opnorm(odl.MatrixOperator(A), xstart=[1.,1.,1.], maxiter=100))\n"
+                      "expected=float(np.linalg.norm(A,2)); ok=(1-1e-3)*expected<=observed<=expected*(1+1e-9)\n" % (B.tolist(), k))
+                est = float(power_method_opnorm(odl.MatrixOperator(A), xstart=[1.0, 1.0, 1.0], maxiter=100))
+                _P(out, (1 - 1e-3) * true <= est <= true * (1 + 1e-9),
+                   'power-method-atol-small-norm' if k <= -17 else 'power-method-estimate-accuracy',
+                   'power_method_opnorm of a matrix with singular values (4,1,.5)-like times 2**%d: estimate/true = %.4f '
+                   '(must be in [0.999, 1])' % (k, est / true), rp)
+                # default relaxation of landweber
+                op = odl.MatrixOperator(A)
+                b = op.range.element(np.array([2.0, 1.0, 2.0]) * 2.0 ** k)
+                x = op.domain.element([-3.0, 2.0, -3.0])
+                vals = [float((op(x) - b).norm())]
+                np.random.seed(13 + j)
+                odl.solvers.landweber(op, x, b, 6, callback=lambda z: vals.append(float((op(z) - b).norm())))
+                _P(out, _mono(vals, 1e-9), 'power-method-atol-small-norm' if k <= -17 else 'landweber-default-omega-at-scale',
+                   'landweber(omega=None) on an operator of norm %.3g: residual non-increasing (%s)'
+                   % (true, ['%.3g' % v for v in vals[:4]]),
+                   "import odl, numpy as np\nA=np.array(%r)*2.0**%d; op=odl.MatrixOperator(A)\nb=op.range.element(np.array([2.,1.,2.])*2.0**%d); "
+                   "x=op.domain.element([-3.,2.,-3.]); vals=[float((op(x)-b).norm())]\nnp.random.seed(%d)\n"
+                   "odl.solvers.landweber(op,x,b,6,callback=lambda z: vals.append(float((op(z)-b).norm())))\n"
+                   "observed=vals; ok=all(q<=p*(1+1e-9) for p,q in zip(vals,vals[1:]))\n" % (B.tolist(), k, k, 13 + j))
+                np.random.seed(13 + j)
+                t_, s_ = odl.solvers.pdhg_stepsize(odl.MatrixOperator(A))
+                _P(out, t_ * s_ * true ** 2 <= 1.0, 'power-method-atol-small-norm' if k <= -17 else 'pdhg_stepsize-admissible-at-scale',
+                   'pdhg_stepsize(L) for |L| = %.3g: tau*sigma*|L|^2 = %.4f <= 1' % (true, t_ * s_ * true ** 2), None)
+    # the documented finding, deterministic
+    with _guard(out, 'norm-estimates'):
+        rp = ("import odl, numpy as np\nA=np.array([[3.,2.,-3.],[0.,-3.,0.],[-2.,-1.,2.]])*2.0**-30; op=odl.MatrixOperator(A)\n"
+              "x=op.domain.element([-3.,2.,-3.]); b=op.range.element(np.array([2.,1.,2.])*2.0**-30); vals=[float((op(x)-b).norm())]\n"
+              "np.random.seed(13)\nodl.solvers.landweber(op,x,b,6,callback=lambda z: vals.append(float((op(z)-b).norm())))\n"
+              "observed=vals; ok=all(q<=p*(1+1e-9) for p,q in zip(vals,vals[1:]))\n")
+        env = {}
+        exec(rp, env)
+        _P(out, env['ok'], 'power-method-atol-small-norm',
+           'landweber(omega=None) on a 3x3 integer matrix times 2**-30: residual non-increasing (observed %r)'
+           % (['%.3g' % v for v in env['vals']],), rp)
+
+
 def _alias_pool(rng):
     """linear operators with domain == range whose in-place call is NOT safe when out aliases the input (and a few
     that are), as (name, operator)"""
@@ -1949,128 +2199,129 @@ def _alias_pool_probes(rng, out):
               "c12._alias_pool_probes(random.Random(%d), out)\nbad=[(p.key, p.detail) for p in out if not p.ok]\n"
               "observed=bad[:2]; ok=not bad\n" % (C.VERIF, seed))
     for name, op in _alias_pool(rng):
-        M, Mt = _matrix(op), _matrix(op.adjoint)
-        n = M.shape[0]
-        w = _weights(op.domain)
-        b = np.array([float(rng.randint(-3, 3)) for _ in range(n)])
-        x0 = np.array([float(rng.randint(-2, 2)) for _ in range(n)])
-        om = float(2.0 ** np.floor(np.log2(1.0 / max(1.0, np.linalg.norm(M, 2) ** 2))))
+        with _guard(out, 'alias_pool_probes'):
+            M, Mt = _matrix(op), _matrix(op.adjoint)
+            n = M.shape[0]
+            w = _weights(op.domain)
+            b = np.array([float(rng.randint(-3, 3)) for _ in range(n)])
+            x0 = np.array([float(rng.randint(-2, 2)) for _ in range(n)])
+            om = float(2.0 ** np.floor(np.log2(1.0 / max(1.0, np.linalg.norm(M, 2) ** 2))))
 
-        def close(tr, ref):
-            return len(tr) == len(ref) and all(np.allclose(t, r, rtol=1e-9, atol=1e-11) for t, r in zip(tr, ref))
-        # landweber
-        tr = []
-        x = _unflat(op.domain, x0.copy())
-        S.landweber(op, x, _unflat(op.range, b), 4, omega=om, callback=lambda z: tr.append(_flat(z).copy()))
-        ref, y = [], x0.copy()
-        for _ in range(4):
-            y = y - om * Mt.dot(M.dot(y) - b)
-            ref.append(y.copy())
-        _P(out, close(tr, ref), 'alias-pool-landweber-%s' % name,
-           'landweber on %s (domain == range) equals the NumPy recursion x - omega A^*(A x - b)' % name, REPLAY,
-           {'M': M.tolist(), 'b': b.tolist(), 'x0': x0.tolist(), 'omega': om, 'got': [t.tolist() for t in tr[:2]],
-            'want': [t.tolist() for t in ref[:2]]})
-        # kaczmarz with the operator twice (two right-hand sides)
-        tr = []
-        x = _unflat(op.domain, x0.copy())
-        S.kaczmarz([op, op], x, [_unflat(op.range, b), _unflat(op.range, 2 * b)], 2, omega=[om, om / 2],
-                   callback=lambda z: tr.append(_flat(z).copy()), callback_loop='inner')
-        ref, y = [], x0.copy()
-        for _ in range(2):
-            for bb, oo in ((b, om), (2 * b, om / 2)):
-                y = y - oo * Mt.dot(M.dot(y) - bb)
+            def close(tr, ref):
+                return len(tr) == len(ref) and all(np.allclose(t, r, rtol=1e-9, atol=1e-11) for t, r in zip(tr, ref))
+            # landweber
+            tr = []
+            x = _unflat(op.domain, x0.copy())
+            S.landweber(op, x, _unflat(op.range, b), 4, omega=om, callback=lambda z: tr.append(_flat(z).copy()))
+            ref, y = [], x0.copy()
+            for _ in range(4):
+                y = y - om * Mt.dot(M.dot(y) - b)
                 ref.append(y.copy())
-        _P(out, close(tr, ref), 'alias-pool-kaczmarz-%s' % name, 'kaczmarz on [%s, %s] equals the NumPy recursion' % (name, name), REPLAY)
-        # conjugate_gradient_normal
-        tr = []
-        x = _unflat(op.domain, x0.copy())
-        S.conjugate_gradient_normal(op, x, _unflat(op.range, b), 2, callback=lambda z: tr.append(_flat(z).copy()))
-        ip = lambda u, v: float(np.sum(w * u * v))
-        ref, y = [], x0.copy()
-        dd = b - M.dot(y)
-        p = Mt.dot(dd)
-        s_ = p.copy()
-        ss = ip(s_, s_)
-        for _ in range(2):
-            q = M.dot(p)
-            qq = ip(q, q)
-            if qq == 0:
-                break
-            a = ss / qq
-            y = y + a * p
-            dd = dd - a * q
-            s_ = Mt.dot(dd)
-            ssn = ip(s_, s_)
-            p = s_ + (ssn / ss) * p
-            ss = ssn
-            ref.append(y.copy())
-        _P(out, close(tr, ref), 'alias-pool-conjugate_gradient_normal-%s' % name,
-           'conjugate_gradient_normal on %s equals the NumPy recursion' % name, REPLAY)
-        # conjugate_gradient on the self-adjoint positive operator  A^* A + I  built by operator arithmetic
-        T = op.adjoint * op + odl.IdentityOperator(op.domain)
-        TM = Mt.dot(M) + np.eye(n)
-        tr = []
-        x = _unflat(op.domain, x0.copy())
-        S.conjugate_gradient(T, x, _unflat(op.domain, b), 2, callback=lambda z: tr.append(_flat(z).copy()))
-        ref, y = [], x0.copy()
-        r = b - TM.dot(y)
-        p = r.copy()
-        rr = ip(r, r)
-        for _ in range(2):
-            if rr == 0:
-                break
-            dv = TM.dot(p)
-            pd = ip(p, dv)
-            if pd == 0:
-                break
-            al = rr / pd
-            y = y + al * p
-            r = r - al * dv
-            rn_ = ip(r, r)
-            p = r + (rn_ / rr) * p
-            rr = rn_
-            ref.append(y.copy())
-        _P(out, close(tr, ref), 'alias-pool-conjugate_gradient-%s' % name,
-           'conjugate_gradient on A^*A + I with A = %s equals the NumPy recursion' % name, REPLAY)
-        # power method on the same self-adjoint operator: never above the largest eigenvalue
-        from odl.operator.oputils import power_method_opnorm
-        est = float(power_method_opnorm(op, xstart=_unflat(op.domain, np.ones(n)), maxiter=10))
-        true = _true_opnorm(op)
-        _P(out, est <= true * (1 + 1e-9), 'alias-pool-power-method-%s' % name,
-           'power_method_opnorm(%s) = %r <= %r' % (name, est, true), REPLAY)
-        # non-smooth solvers with L from the pool (operators on rn(n) only): pdhg / admm against NumPy
-        if isinstance(op.domain, odl.ProductSpace) or not isinstance(op.domain, type(odl.rn(1))) or op.domain != odl.rn(n):
-            continue
-        sp = op.domain
-        a = np.array([float(rng.randint(-2, 2)) for _ in range(n)])
-        f = 0.5 * S.L2NormSquared(sp).translated(a)
-        g = S.L1Norm(sp)
-        tau, sigma = 0.25, 0.5
-        tr = []
-        x = sp.element(x0.copy())
-        S.pdhg(x, f, g, op, 3, tau=tau, sigma=sigma, callback=lambda z: tr.append(_flat(z).copy()))
-        ref, xx, xr, yy = [], x0.copy(), x0.copy(), np.zeros(n)
-        for _ in range(3):
-            yy = np.clip(yy + sigma * M.dot(xr), -1, 1)
-            xn = (xx - tau * Mt.dot(yy) + tau * a) / (1 + tau)
-            xr = 2 * xn - xx
-            xx = xn
-            ref.append(xx.copy())
-        _P(out, close(tr, ref), 'alias-pool-pdhg-%s' % name, 'pdhg with L = %s equals the NumPy recursion' % name, REPLAY)
-        tr = []
-        x = sp.element(x0.copy())
-        S.admm_linearized(x, f, g, op, 0.125, 1.0, 3, callback=lambda z: tr.append(_flat(z).copy()))
-        ref, xx, zz, uu = [], x0.copy(), np.zeros(n), np.zeros(n)
-        t_, s_g = 0.125, 1.0
-        for _ in range(3):
-            v = xx - t_ / s_g * Mt.dot(M.dot(xx) + uu - zz)
-            xx = (v + t_ * a) / (1 + t_)
-            Lx = M.dot(xx)
-            zn = np.sign(Lx + uu) * np.maximum(np.abs(Lx + uu) - s_g, 0)
-            uu = uu + Lx - zn
-            zz = zn
-            ref.append(xx.copy())
-        _P(out, close(tr, ref), 'alias-pool-admm_linearized-%s' % name, 'admm_linearized with L = %s equals the NumPy recursion' % name, REPLAY)
+            _P(out, close(tr, ref), 'alias-pool-landweber-%s' % name,
+               'landweber on %s (domain == range) equals the NumPy recursion x - omega A^*(A x - b)' % name, REPLAY,
+               {'M': M.tolist(), 'b': b.tolist(), 'x0': x0.tolist(), 'omega': om, 'got': [t.tolist() for t in tr[:2]],
+                'want': [t.tolist() for t in ref[:2]]})
+            # kaczmarz with the operator twice (two right-hand sides)
+            tr = []
+            x = _unflat(op.domain, x0.copy())
+            S.kaczmarz([op, op], x, [_unflat(op.range, b), _unflat(op.range, 2 * b)], 2, omega=[om, om / 2],
+                       callback=lambda z: tr.append(_flat(z).copy()), callback_loop='inner')
+            ref, y = [], x0.copy()
+            for _ in range(2):
+                for bb, oo in ((b, om), (2 * b, om / 2)):
+                    y = y - oo * Mt.dot(M.dot(y) - bb)
+                    ref.append(y.copy())
+            _P(out, close(tr, ref), 'alias-pool-kaczmarz-%s' % name, 'kaczmarz on [%s, %s] equals the NumPy recursion' % (name, name), REPLAY)
+            # conjugate_gradient_normal
+            tr = []
+            x = _unflat(op.domain, x0.copy())
+            S.conjugate_gradient_normal(op, x, _unflat(op.range, b), 2, callback=lambda z: tr.append(_flat(z).copy()))
+            ip = lambda u, v: float(np.sum(w * u * v))
+            ref, y = [], x0.copy()
+            dd = b - M.dot(y)
+            p = Mt.dot(dd)
+            s_ = p.copy()
+            ss = ip(s_, s_)
+            for _ in range(2):
+                q = M.dot(p)
+                qq = ip(q, q)
+                if qq == 0:
+                    break
+                a = ss / qq
+                y = y + a * p
+                dd = dd - a * q
+                s_ = Mt.dot(dd)
+                ssn = ip(s_, s_)
+                p = s_ + (ssn / ss) * p
+                ss = ssn
+                ref.append(y.copy())
+            _P(out, close(tr, ref), 'alias-pool-conjugate_gradient_normal-%s' % name,
+               'conjugate_gradient_normal on %s equals the NumPy recursion' % name, REPLAY)
+            # conjugate_gradient on the self-adjoint positive operator  A^* A + I  built by operator arithmetic
+            T = op.adjoint * op + odl.IdentityOperator(op.domain)
+            TM = Mt.dot(M) + np.eye(n)
+            tr = []
+            x = _unflat(op.domain, x0.copy())
+            S.conjugate_gradient(T, x, _unflat(op.domain, b), 2, callback=lambda z: tr.append(_flat(z).copy()))
+            ref, y = [], x0.copy()
+            r = b - TM.dot(y)
+            p = r.copy()
+            rr = ip(r, r)
+            for _ in range(2):
+                if rr == 0:
+                    break
+                dv = TM.dot(p)
+                pd = ip(p, dv)
+                if pd == 0:
+                    break
+                al = rr / pd
+                y = y + al * p
+                r = r - al * dv
+                rn_ = ip(r, r)
+                p = r + (rn_ / rr) * p
+                rr = rn_
+                ref.append(y.copy())
+            _P(out, close(tr, ref), 'alias-pool-conjugate_gradient-%s' % name,
+               'conjugate_gradient on A^*A + I with A = %s equals the NumPy recursion' % name, REPLAY)
+            # power method on the same self-adjoint operator: never above the largest eigenvalue
+            from odl.operator.oputils import power_method_opnorm
+            est = float(power_method_opnorm(op, xstart=_unflat(op.domain, np.ones(n)), maxiter=10))
+            true = _true_opnorm(op)
+            _P(out, est <= true * (1 + 1e-9), 'alias-pool-power-method-%s' % name,
+               'power_method_opnorm(%s) = %r <= %r' % (name, est, true), REPLAY)
+            # non-smooth solvers with L from the pool (operators on rn(n) only): pdhg / admm against NumPy
+            if isinstance(op.domain, odl.ProductSpace) or not isinstance(op.domain, type(odl.rn(1))) or op.domain != odl.rn(n):
+                continue
+            sp = op.domain
+            a = np.array([float(rng.randint(-2, 2)) for _ in range(n)])
+            f = 0.5 * S.L2NormSquared(sp).translated(a)
+            g = S.L1Norm(sp)
+            tau, sigma = 0.25, 0.5
+            tr = []
+            x = sp.element(x0.copy())
+            S.pdhg(x, f, g, op, 3, tau=tau, sigma=sigma, callback=lambda z: tr.append(_flat(z).copy()))
+            ref, xx, xr, yy = [], x0.copy(), x0.copy(), np.zeros(n)
+            for _ in range(3):
+                yy = np.clip(yy + sigma * M.dot(xr), -1, 1)
+                xn = (xx - tau * Mt.dot(yy) + tau * a) / (1 + tau)
+                xr = 2 * xn - xx
+                xx = xn
+                ref.append(xx.copy())
+            _P(out, close(tr, ref), 'alias-pool-pdhg-%s' % name, 'pdhg with L = %s equals the NumPy recursion' % name, REPLAY)
+            tr = []
+            x = sp.element(x0.copy())
+            S.admm_linearized(x, f, g, op, 0.125, 1.0, 3, callback=lambda z: tr.append(_flat(z).copy()))
+            ref, xx, zz, uu = [], x0.copy(), np.zeros(n), np.zeros(n)
+            t_, s_g = 0.125, 1.0
+            for _ in range(3):
+                v = xx - t_ / s_g * Mt.dot(M.dot(xx) + uu - zz)
+                xx = (v + t_ * a) / (1 + t_)
+                Lx = M.dot(xx)
+                zn = np.sign(Lx + uu) * np.maximum(np.abs(Lx + uu) - s_g, 0)
+                uu = uu + Lx - zn
+                zz = zn
+                ref.append(xx.copy())
+            _P(out, close(tr, ref), 'alias-pool-admm_linearized-%s' % name, 'admm_linearized with L = %s equals the NumPy recursion' % name, REPLAY)
 
 
 def search(rng, broken):
@@ -2078,13 +2329,12 @@ def search(rng, broken):
     own statement option by option and return the first input on which it fails (not a recorded finding)."""
     known = C.load_findings(PID)
     out = []
-    _fixed_point_option_probes(out)
-    _scale_probes(out)
-    _alias_pool_probes(rng, out)
-    _limit_option_probes(out, 'quick')
-    for p in out:
-        if not p.ok and p.key not in known:
-            return p
+    for name, fam in FAMILIES[:6]:
+        with _guard(out, 'family-' + name):
+            fam(rng, 'quick', out)
+        for p in out:
+            if not p.ok and p.key not in known:
+                return p
     return None
 
 
@@ -2109,20 +2359,25 @@ def extra_coverage():
     return rep
 
 
+FAMILIES = [('fixed-point-options', lambda rng, tier, out: _fixed_point_option_probes(out)),
+            ('scales', lambda rng, tier, out: _scale_probes(out)),
+            ('transcriptions', lambda rng, tier, out: _transcription_probes(out)),
+            ('norm-estimates', lambda rng, tier, out: _norm_estimate_probes(rng, out)),
+            ('alias-pool', lambda rng, tier, out: _alias_pool_probes(rng, out)),
+            ('limits', lambda rng, tier, out: _limit_option_probes(out, tier)),
+            ('linear', lambda rng, tier, out: (np.random.seed(rng.randrange(2 ** 31)), _linear_probes(rng, tier, out))),
+            ('cgn-regressions', lambda rng, tier, out: (_cgn_blowup_probe(out), _cgn_noise_floor_probe(rng, tier, out))),
+            ('descent', lambda rng, tier, out: _descent_probes(rng, tier, out)),
+            ('linesearch-reuse', lambda rng, tier, out: (_linesearch_reuse_probes(rng, tier, out),
+                                                          _linesearch_stale_state_probes(rng, tier, out))),
+            ('nonsmooth', lambda rng, tier, out: _nonsmooth_probes(rng, tier, out))]
+
+
 def probes(rng, tier):
     out = []
-    _fixed_point_option_probes(out)
-    _scale_probes(out)
-    _alias_pool_probes(rng, out)
-    _limit_option_probes(out, tier)
-    np.random.seed(rng.randrange(2 ** 31))
-    _linear_probes(rng, tier, out)
-    _cgn_blowup_probe(out)
-    _cgn_noise_floor_probe(rng, tier, out)
-    _descent_probes(rng, tier, out)
-    _linesearch_reuse_probes(rng, tier, out)
-    _linesearch_stale_state_probes(rng, tier, out)
-    _nonsmooth_probes(rng, tier, out)
+    for name, fam in FAMILIES:
+        with _guard(out, 'family-' + name):         # a crash never takes the other families down
+            fam(rng, tier, out)
     return out
 
 
